@@ -1273,3 +1273,1977 @@ Lemma spec_energy_app l d u now : ENP.spec_energy (l ++ d) u now = ENP.spec_ener
 Proof. rewrite !ENP.spec_energy_eq, EV.lweight_app, EV.ltotal_app. lia. Qed.
 Lemma spec_total_app l d u : ENP.spec_total (l ++ d) u = ENP.spec_total l u + ENP.spec_total d u.
 Proof. rewrite !ENP.spec_total_eq, EV.ltotal_app. lia. Qed.
+
+(** ---- who carries the energy of tokens at work *)
+(** a proxy endpoint called by [u] touches the stored entry of nobody but [u] *)
+Theorem cstep_only_caller cs o cs' co u : cstep cs o = Ok (cs', co) -> Backed (c_px cs) -> caller_of o = Some u -> uid u ->
+  ent_frame u (c_en cs) (c_en cs').
+Proof.
+  intros H Hb Hc ((Hu & _) & _).
+  destruct o; cbn [cstep caller_of] in *; try discriminate; inversion Hc; subst u0.
+  - exact (proj2 (c_add_liq_ct _ _ _ _ _ _ _ _ _ _ H Hu Hb)).
+  - exact (proj2 (c_remove_liq_ct _ _ _ _ _ _ _ _ H Hu Hb)).
+  - exact (proj2 (c_enter_farm_ct _ _ _ _ _ _ _ _ H Hu Hb)).
+  - exact (proj2 (c_exit_farm_ct _ _ _ _ _ _ _ H Hu Hb)).
+  - exact (proj2 (c_claim_ct _ _ _ _ _ _ _ H Hu Hb)).
+  - exact (proj2 (c_merge_wlp_ct _ _ _ _ _ H Hu Hb)).
+  - exact (proj2 (c_merge_wfm_ct _ _ _ _ _ _ _ H Hu Hb)).
+  - exact (proj2 (c_inc_lp_ct _ _ _ _ _ _ H Hu Hb)).
+  - exact (proj2 (c_inc_fm_ct _ _ _ _ _ _ H Hu Hb)).
+Qed.
+
+Lemma ent_frame_view u s s' v : ent_frame u s s' -> v <> u -> EN.view_entry s' v = EN.view_entry s v.
+Proof. intros (N & _ & E) Hv. unfold EN.view_entry, EN.entry_now. rewrite N, (E v Hv). reflexivity. Qed.
+
+(** a wrapped token changing hands (and the whitelist operations) move no energy and no carried token *)
+Theorem cstep_transfer_moves_nothing cs o cs' co : cstep cs o = Ok (cs', co) ->
+  match o with CXferWlp _ _ _ _ | CXferWfm _ _ _ _ | CSetPair _ _ | CSetFarm _ _ _ => True | _ => False end ->
+  c_en cs' = c_en cs /\ c_g cs' = c_g cs /\ c_pair cs' = c_pair cs /\ c_f0 cs' = c_f0 cs /\ c_f1 cs' = c_f1 cs.
+Proof.
+  intros H Ho. destruct o; try contradiction; cbn [cstep] in H; unfold c_plain in H; mon H rx Hx; destruct rx;
+    inversion H; subst; repeat split; reflexivity.
+Qed.
+
+(** the deduction is exact: when the proxy burns [amt] locked tokens of unlock epoch [k] for the caller [u], the
+    caller's entry loses amt * (k - now) (a refund when the lock has expired: k < now) and amt locked tokens,
+    starting from the entry as it was when the proxy read it *)
+Lemma deplete_upd en now : EN.e_upd (EN.deplete en now) = now.
+Proof. unfold EN.deplete. destruct (EN.e_upd en =? now) eqn:E; [apply Z.eqb_eq in E; exact E | reflexivity]. Qed.
+
+Lemma pe_deplete_id p now : pe_upd p = now -> pe_deplete p now = p.
+Proof. unfold pe_deplete. intros E. rewrite E, Z.eqb_refl. reflexivity. Qed.
+
+Lemma deplete_id en now : EN.e_upd en = now -> EN.deplete en now = en.
+Proof. unfold EN.deplete. intros E. rewrite E, Z.eqb_refl. reflexivity. Qed.
+
+Theorem px_burn_exact c u x e c' k amt : px_burn c u x = Ok c' -> x_lburn x = (k, amt) -> amt <> 0 ->
+  burn_energy e amt = Ok (x_energy x) -> v_unlock e = k ->
+  v_energy e = L16.pe_of (EN.view_entry (fst c) u) -> v_now e = EN.s_now (fst c) ->
+  let en := EN.view_entry (fst c) u in let en' := EN.view_entry (fst c') u in
+  EN.e_amt en' = EN.e_amt en - amt * (k - EN.s_now (fst c)) /\ EN.e_tot en' = EN.e_tot en - amt /\ amt <= EN.e_tot en /\
+  snd c' = EN.credit (snd c) u k (- amt).
+Proof.
+  unfold px_burn. destruct c as [s car]. intros H El Hnz Hbe Hk Hen Hnow. rewrite El in H. mon H l1 Hd.
+  unfold burn_energy in Hbe. destruct (amt =? 0) eqn:Ez; [apply Z.eqb_eq in Ez; contradiction|].
+  mon Hbe en1 Hu1. inversion Hbe as [Hx]; clear Hbe. rewrite <- Hx in H. inversion H; subst c'; clear H. cbn [fst snd].
+  destruct (energy_update_char _ _ _ _ _ Hu1) as (A & B & C & D).
+  rewrite Hen, Hnow in *. cbn [fst] in *.
+  assert (U : pe_upd (L16.pe_of (EN.view_entry s u)) = EN.s_now s) by (cbn; apply deplete_upd).
+  rewrite (pe_deplete_id _ _ U) in A, B, C, D. cbn [L16.pe_of pe_amt pe_tot pe_upd] in A, B, C, D.
+  unfold EN.view_entry at 1 3 5. unfold EN.entry_now. cbn [EN.s_en EN.put_entry EN.set_en EN.set_bal EN.s_now].
+  rewrite ENP.eget_eset_same. rewrite deplete_id by (cbn; rewrite D; apply deplete_upd).
+  cbn [L16.en_of EN.e_amt EN.e_tot]. rewrite Hk in A. repeat split; auto.
+Qed.
+
+Lemma settle_burn_exact c u x e c' k amt : settle c u x = Ok c' -> x_lburn x = (k, amt) -> amt <> 0 ->
+  burn_energy e (snd (x_lburn x)) = Ok (x_energy x) ->
+  (snd (x_lburn x) <> 0 -> fst (x_lburn x) = v_unlock e) ->
+  v_energy e = L16.pe_of (EN.view_entry (fst c) u) -> v_now e = EN.s_now (fst c) ->
+  let en' := EN.view_entry (fst c') u in
+  EN.e_amt en' = pe_amt (v_energy e) - amt * (k - v_now e) /\ EN.e_tot en' = pe_tot (v_energy e) - amt /\
+  amt <= pe_tot (v_energy e) /\ k = v_unlock e.
+Proof.
+  unfold settle. intros H El Hnz Hbe Hk Hen Hnow. mon H c1 H1. rewrite El in Hbe, Hk. cbn [fst snd] in Hbe, Hk.
+  specialize (Hk Hnz). destruct (from_px_all_en _ _ _ _ H1) as [A B].
+  assert (Hen1 : v_energy e = L16.pe_of (EN.view_entry (fst c1) u)).
+  { rewrite Hen. f_equal. symmetry. apply view_entry_same; assumption. }
+  assert (Hnow1 : v_now e = EN.s_now (fst c1)) by congruence.
+  destruct (px_burn_exact _ _ _ _ _ _ _ H El Hnz Hbe (eq_sym Hk) Hen1 Hnow1) as (P1 & P2 & P3 & _).
+  cbv zeta. rewrite P1, P2, Hen1, Hnow1. cbn [L16.pe_of pe_amt pe_tot] in *. repeat split; auto.
+Qed.
+
+(** removeLiquidityProxy / exitFarmProxy: the only endpoints that burn locked tokens; the deduction is exact, from
+    the entry the factory model reports when the proxy reads it (for exitFarmProxy: after the reward was locked) *)
+Theorem cstep_burn_exact cs o cs' co u k amt : cstep cs o = Ok (cs', co) -> Backed (c_px cs) -> caller_of o = Some u -> uid u ->
+  x_lburn (co_x co) = (k, amt) -> amt <> 0 ->
+  let r := v_energy (co_e co) in
+  let en' := EN.view_entry (c_en cs') u in
+  (match o with CRemoveLiq _ _ _ _ _ | CExitFarm _ _ _ _ => True | _ => False end) /\
+  (match o with CRemoveLiq _ _ _ _ _ => r = entry_of (c_en cs) u | _ => True end) /\
+  pe_upd r = now_of cs /\
+  EN.e_amt en' = pe_amt r - amt * (k - now_of cs) /\ EN.e_tot en' = pe_tot r - amt /\ amt <= pe_tot r /\
+  k = v_unlock (co_e co) /\
+  (match o with
+   | CRemoveLiq _ _ p _ _ => k = wlp_k (c_px cs) (p_non p)
+   | CExitFarm _ _ p _ => k = wfm_k (c_px cs) (p_non p)
+   | _ => True end).
+Proof.
+  intros H Hb Hc ((Hu & _) & _) El Hnz.
+  pose proof (cstep_proj _ _ _ _ H) as P.
+  destruct o; cbn [cstep caller_of pop_of] in *; try discriminate; inversion Hc; subst u0; destruct P as [Hs _];
+    pose proof (step_burn _ _ _ _ Hs Hb) as Bk; cbn [burn_ok] in Bk;
+    try (destruct Bk as [Bl _]; rewrite Bl in El; inversion El; subst; contradiction).
+  - (* remove *) unfold c_remove_liq in H. mon H rp Hp. destruct rp as [[pair' po] ef]. mon H e He. opt_in He.
+    mon H rx Hx. destruct rx as [px' x]. mon H c2 H2. inversion H; subst cs' co; clear H. cbn [co_e co_x c_en] in *.
+    destruct Bk as [Hbe Hk].
+    destruct (answer_remove_fields _ _ _ _ He) as (E1 & E2 & E3). cbn [env0 v_now v_energy v_unlock] in *.
+    assert (Hk' : snd (x_lburn x) <> 0 -> fst (x_lburn x) = v_unlock e) by (rewrite E3; exact Hk).
+    destruct (settle_burn_exact _ _ _ e _ _ _ H2 El Hnz Hbe Hk' E2 E1) as (Q1 & Q2 & Q3 & Q4).
+    cbv zeta. rewrite E1 in Q1. unfold now_of.
+    split; [exact I|]. split; [exact E2|]. split; [rewrite E2; cbn; apply deplete_upd|].
+    split; [exact Q1|]. split; [exact Q2|]. split; [exact Q3|]. split; [exact Q4|]. rewrite Q4, E3. reflexivity.
+  - (* exit *) unfold c_exit_farm in H. cbv zeta in H. mon H lf Hlf.
+    destruct (getn (s_wfm (c_px cs)) (p_non p)) as [w|] eqn:Hw; [|discriminate].
+    mon H rf Hrf. destruct rf as [[lf1 fo] rc]. mon H pair1 Hpair. mon H c1 H1. mon H e He. opt_in He.
+    mon H rx Hx. destruct rx as [px' x]. mon H c2 H2. destruct (set_farm cs farm lf1) as [f0' f1'].
+    inversion H; subst cs' co; clear H. cbn [co_e co_x c_en] in *.
+    destruct Bk as [Hbe Hk].
+    destruct (answer_exit_fields _ _ _ _ He) as (E1 & E2 & E3). cbn [env0 v_now v_energy v_unlock] in *.
+    assert (Hk' : snd (x_lburn x) <> 0 -> fst (x_lburn x) = v_unlock e) by (rewrite E3; exact Hk).
+    pose proof (rc_px_ct _ _ _ _ _ H1 (via_user_rc_for _ _ _ _ _ _ _ _ Hrf eq_refl) Hu) as [_ (N1 & _)]. cbn [fst] in N1.
+    assert (E1' : v_now e = EN.s_now (fst c1)) by (rewrite E1; unfold now_of; congruence).
+    destruct (settle_burn_exact _ _ _ e _ _ _ H2 El Hnz Hbe Hk' E2 E1') as (Q1 & Q2 & Q3 & Q4).
+    cbv zeta. rewrite E1 in Q1.
+    split; [exact I|]. split; [exact I|]. split; [rewrite E2; unfold entry_of, EN.view_entry, EN.entry_now; cbn [L16.pe_of pe_upd]; rewrite deplete_upd; exact N1|].
+    split; [exact Q1|]. split; [exact Q2|]. split; [exact Q3|]. split; [exact Q4|]. rewrite Q4, E3. reflexivity.
+Qed.
+
+(** ================================================================== Part B: the proxy's books against the callee models *)
+(** ---- the proxy's own books (Model/ProxyDex.v): LP tokens, farm tokens, and the kind of every wrapped farm position.
+    A wrapped farm position of the base-asset farm records locked tokens, one of the LP farm records wrapped LP tokens. *)
+Definition kf_ok (w : wfm) : Prop := (wf_farm w = 0 /\ wf_kind w = 0) \/ (wf_farm w = 1 /\ wf_kind w = 1).
+Definition KF (s : state) : Prop := Forall kf_ok (s_wfm s).
+
+(** [s'] differs from [s], in these books, by [dlp] LP tokens and [df key] farm tokens per key *)
+Definition bk (s s' : state) (dlp : Z) (df : Z -> Z) : Prop :=
+  s_lp s' = s_lp s + dlp /\ (forall key, aget (s_farm s') key = aget (s_farm s) key + df key) /\ (KF s -> KF s').
+
+Definition df0 : Z -> Z := fun _ => 0.
+Definition df1 (k a : Z) : Z -> Z := fun key => if k =? key then a else 0.
+Definition dfadd (f g : Z -> Z) : Z -> Z := fun key => f key + g key.
+
+Lemma bk_trans s1 s2 s3 d1 f1 d2 f2 : bk s1 s2 d1 f1 -> bk s2 s3 d2 f2 -> bk s1 s3 (d1 + d2) (dfadd f1 f2).
+Proof.
+  intros (A1 & B1 & C1) (A2 & B2 & C2). split; [lia|]. split; [|auto].
+  intros key. unfold dfadd. rewrite B2, B1. lia.
+Qed.
+
+Lemma bk_same s s' : s_lp s' = s_lp s -> s_farm s' = s_farm s -> s_wfm s' = s_wfm s -> bk s s' 0 df0.
+Proof. intros Ea Eb Ec. split; [lia|]. split; [intros key; rewrite Eb; unfold df0; lia|]. unfold KF. rewrite Ec. auto. Qed.
+
+Lemma bk_ext s s' d f d' f' : bk s s' d f -> d = d' -> (forall key, f key = f' key) -> bk s s' d' f'.
+Proof. intros (Ea & Eb & Ec) -> E. split; [exact Ea|]. split; [intros key; rewrite Eb, E; reflexivity | exact Ec]. Qed.
+
+Lemma locked_out_fr s k a s' : locked_out s k a = Ok s' -> s_lp s' = s_lp s /\ s_farm s' = s_farm s /\ s_wfm s' = s_wfm s /\ s_wlp s' = s_wlp s.
+Proof. unfold locked_out. intros H. mon H l Hl. inversion H; subst. auto. Qed.
+
+Lemma release_wlp_fr s n a s' r : release_wlp s n a = Ok (s', r) -> s_lp s' = s_lp s /\ s_farm s' = s_farm s /\ s_wfm s' = s_wfm s.
+Proof.
+  unfold release_wlp. intros H. destruct (getn (s_wlp s) n) as [w|]; [|discriminate]. chk H. mon H lp Hlp. mon H live Hlive.
+  mon H s2 Hs2. inversion H; subst. destruct (locked_out_fr _ _ _ _ Hs2) as (Ea & Eb & Ec & _). rewrite Ea, Eb, Ec. auto.
+Qed.
+
+Lemma take_wlp_user_bk s u n a s' r : take_wlp_user s u n a = Ok (s', r) -> bk s s' (- a) df0.
+Proof.
+  unfold take_wlp_user. intros H. mon H h Hh. mon H lp Hlp. apply sub_chk_ok in Hlp. destruct Hlp as [_ ->].
+  destruct (release_wlp_fr _ _ _ _ _ H) as (Ea & Eb & Ec). cbn in Ea, Eb, Ec. split; [lia|].
+  split; [intros key; rewrite Eb; unfold df0; lia|]. unfold KF. rewrite Ec. auto.
+Qed.
+
+Lemma kill_wlp_fr s n a s' r : kill_wlp s n a = Ok (s', r) -> s_lp s' = s_lp s /\ s_farm s' = s_farm s /\ s_wfm s' = s_wfm s.
+Proof.
+  unfold kill_wlp. intros H. mon H r0 Hr. destruct r0 as [s1 kl]. destruct (release_wlp_fr _ _ _ _ _ Hr) as (Ea & Eb & Ec).
+  destruct (getn (s_wlp s1) n) as [w|]; [|discriminate]. inversion H; subst. cbn. auto.
+Qed.
+
+Lemma mint_wlp_fr s T k L s' n : mint_wlp s T k L = (s', n) -> s_lp s' = s_lp s /\ s_farm s' = s_farm s /\ s_wfm s' = s_wfm s.
+Proof. unfold mint_wlp. intros H. inversion H; subst. cbn. auto. Qed.
+
+Lemma mint_wlp_user_bk s u T k L s' n : mint_wlp_user s u T k L = (s', n) -> bk s s' T df0.
+Proof.
+  unfold mint_wlp_user. destruct (mint_wlp s T k L) as [s1 n1] eqn:E. intros H. inversion H; subst.
+  destruct (mint_wlp_fr _ _ _ _ _ _ E) as (Ea & Eb & Ec). split; [cbn; lia|].
+  split; [intros key; cbn; rewrite Eb; unfold df0; lia|]. unfold KF. cbn. rewrite Ec. auto.
+Qed.
+
+Lemma take_wlp_list_bk ps : forall s u s' ta tl, take_wlp_list s u ps = Ok (s', (ta, tl)) -> bk s s' (- ta) df0.
+Proof.
+  induction ps as [|p t IH]; intros s u s' ta tl H; simpl in H.
+  - inversion H; subst. apply bk_same; reflexivity.
+  - destruct (p_tok p =? TK_WLP); [|discriminate]. mon H r Hr. destruct r as [s1 [k lp]].
+    mon H r2 Hr2. destruct r2 as [s2 [ta2 tl2]]. inversion H; subst s' ta tl; clear H.
+    eapply bk_ext; [eapply bk_trans; [eapply take_wlp_user_bk; eauto | eapply IH; eauto] | lia | intros; reflexivity].
+Qed.
+
+Lemma take_wfm_bk s u m a s' w pp : take_wfm s u m a = Ok (s', (w, pp)) ->
+  getn (s_wfm s) m = Some w /\ bk s s' 0 (df1 (fkey (wf_f w) (wf_farm w)) (- a)) /\ (KF s -> kf_ok w) /\ s_wlp s' = s_wlp s.
+Proof.
+  unfold take_wfm. intros H. destruct (getn (s_wfm s) m) as [w0|] eqn:Hw; [|discriminate]. chk H.
+  mon H h Hh. mon H pp0 Hpp. mon H sup Hsup. mon H fb Hfb. apply bal_sub_ok in Hfb. destruct Hfb as [_ ->].
+  mon H s2 Hs2. inversion H; subst s2 w0 pp0; clear H. split; [reflexivity|].
+  set (w' := mkWfm (wf_farm w) (wf_f w) (wf_T w) (wf_kind w) (wf_pn w) (wf_P w) sup) in *.
+  assert (E : s_lp s' = s_lp s /\ s_farm s' = aset (s_farm s) (fkey (wf_f w) (wf_farm w)) (aget (s_farm s) (fkey (wf_f w) (wf_farm w)) - a)
+              /\ s_wfm s' = setn (s_wfm s) m w' /\ s_wlp s' = s_wlp s).
+  { destruct (wf_kind w =? 0).
+    - destruct (locked_out_fr _ _ _ _ Hs2) as (Ea & Eb & Ec & Ed). rewrite Ea, Eb, Ec, Ed. cbn. auto.
+    - mon Hs2 l Hl. inversion Hs2; subst. cbn. auto. }
+  destruct E as (Ea & Eb & Ec & Ed).
+  assert (Kw : KF s -> kf_ok w) by (intros K; exact (Forall_getn _ _ _ _ K Hw)).
+  split; [|split; [exact Kw | exact Ed]]. split; [lia|]. split.
+  - intros key. rewrite Eb, aget_aset. unfold df1. destruct (fkey (wf_f w) (wf_farm w) =? key) eqn:Ek; [|lia].
+    apply Z.eqb_eq in Ek. subst key. lia.
+  - intros K. unfold KF. rewrite Ec. apply Forall_setnth; [exact K|]. specialize (Kw K). unfold kf_ok in *. exact Kw.
+Qed.
+
+Lemma mint_wfm_bk' s u farm f T kind pn P s' m : mint_wfm s u farm f T kind pn P = (s', m) ->
+  s_lp s' = s_lp s /\ (forall key, aget (s_farm s') key = aget (s_farm s) key + df1 (fkey f farm) T key) /\
+  s_wfm s' = s_wfm s ++ [mkWfm farm f T kind pn P T].
+Proof.
+  unfold mint_wfm. intros H.
+  assert (E : s_lp s' = s_lp s /\ s_farm s' = bal_add (s_farm s) (fkey f farm) T /\ s_wfm s' = s_wfm s ++ [mkWfm farm f T kind pn P T]).
+  { destruct (kind =? 0); inversion H; subst; cbn; auto. }
+  destruct E as (Ea & Eb & Ec). split; [exact Ea|]. split; [|exact Ec].
+  intros key. rewrite Eb, aget_bal_add. unfold df1. destruct (fkey f farm =? key) eqn:Ek; [|lia].
+  apply Z.eqb_eq in Ek. subst key. lia.
+Qed.
+
+Lemma mint_wfm_bk2 s u farm f T kind pn P s' m : mint_wfm s u farm f T kind pn P = (s', m) ->
+  ((farm = 0 /\ kind = 0) \/ (farm = 1 /\ kind = 1)) -> bk s s' 0 (df1 (fkey f farm) T).
+Proof.
+  intros H Hk. destruct (mint_wfm_bk' _ _ _ _ _ _ _ _ _ _ H) as (Ea & Eb & Ec). split; [lia|]. split; [exact Eb|].
+  intros K. unfold KF. rewrite Ec. apply Forall_app. split; [exact K|]. constructor; [|constructor]. exact Hk.
+Qed.
+
+(** farm tokens taken out of the books by a list of wrapped farm payments: per farm-token key *)
+Definition item_kf (it : item) : Prop := let '(fa, _, ki, _, _) := it in (fa = 0 /\ ki = 0) \/ (fa = 1 /\ ki = 1).
+
+Fixpoint ksumf (its : list item) (toks : list (Z * Z)) (key : Z) : Z :=
+  match its, toks with
+  | (fa, _, _, _, _) :: its', (f, a) :: toks' => (if fkey f fa =? key then a else 0) + ksumf its' toks' key
+  | _, _ => 0
+  end.
+
+Lemma take_wfm_list_bk ps : forall s u s' its toks, take_wfm_list s u ps = Ok (s', its) -> wfm_toks s u ps = Ok toks ->
+  bk s s' 0 (fun key => - ksumf its toks key) /\ (KF s -> Forall item_kf its) /\ s_wlp s' = s_wlp s /\ length toks = length its.
+Proof.
+  induction ps as [|p t IH]; intros s u s' its toks H W; simpl in H, W.
+  - inversion H; inversion W; subst. split; [apply bk_same; reflexivity|]. split; [constructor|]. split; reflexivity.
+  - destruct (p_tok p =? TK_WFM); [|discriminate].
+    mon H r Hr. destruct r as [s1 [w pp]]. rewrite Hr in W. cbn [bind] in W.
+    mon H r2 Hr2. destruct r2 as [s2 its2]. inversion H; subst s' its; clear H.
+    mon W rest Wr. inversion W; subst toks; clear W.
+    destruct (take_wfm_bk _ _ _ _ _ _ _ Hr) as (Hw & B1 & K1 & L1).
+    destruct (IH _ _ _ _ _ Hr2 Wr) as (B2 & K2 & L2 & N2).
+    split; [|split; [|split]].
+    + eapply bk_ext; [eapply bk_trans; eauto | lia |]. intros key. unfold dfadd, df1. cbn [ksumf mk_item].
+      destruct (fkey (wf_f w) (wf_farm w) =? key); lia.
+    + intros K. constructor; [exact (K1 K) | apply K2; exact (proj2 (proj2 B1) K)].
+    + congruence.
+    + cbn [length]. rewrite N2. reflexivity.
+Qed.
+
+Lemma kill_items_fr its : forall s s' r, kill_items s its = Ok (s', r) -> s_lp s' = s_lp s /\ s_farm s' = s_farm s /\ s_wfm s' = s_wfm s.
+Proof.
+  induction its as [|it t IH]; intros s s' r H; simpl in H.
+  - inversion H; subst. auto.
+  - destruct it as [[[[fa a] ki] pn] pp]. mon H r1 Hr1. destruct r1 as [s1 [k lq]]. mon H r2 Hr2. destruct r2 as [s2 [ta tl]].
+    inversion H; subst. destruct (kill_wlp_fr _ _ _ _ _ Hr1) as (Ea & Eb & Ec). destruct (IH _ _ _ Hr2) as (Fa & Fb & Fc).
+    rewrite Fa, Fb, Fc. auto.
+Qed.
+
+Lemma merge_items_bk s u farm its e s' m amt law : merge_items s u farm its e = Ok (s', (m, amt, law)) ->
+  s_lp s' = s_lp s /\ (forall key, aget (s_farm s') key = aget (s_farm s) key + df1 (fkey (fst (v_fmerge e)) farm) (snd (v_fmerge e)) key) /\
+  (KF s -> Forall item_kf its -> KF s') /\ amt = snd (v_fmerge e) /\
+  (exists fa a ki pn pp t, its = (fa, a, ki, pn, pp) :: t /\ fa = farm /\ items_same fa ki its = true).
+Proof.
+  unfold merge_items. intros H. destruct its as [|it t]; [discriminate|].
+  destruct it as [[[[fa a] kind] pn] pp]. cbv beta iota in H.
+  match type of H with context [items_same ?x ?y ?z] => destruct (items_same x y z) eqn:Es; [|discriminate] end.
+  destruct (fa =? farm) eqn:Ef; [|discriminate]. apply Z.eqb_eq in Ef. destruct (v_ok e); [|discriminate].
+  destruct (v_fact e) as [kf lf]. destruct (v_fmerge e) as [f' F']. cbn [fst snd].
+  assert (Last : exists fa0 a0 ki0 pn0 pp0 t0, (fa, a, kind, pn, pp) :: t = (fa0, a0, ki0, pn0, pp0) :: t0 /\ fa0 = farm /\
+                 items_same fa0 ki0 ((fa, a, kind, pn, pp) :: t) = true) by (exists fa, a, kind, pn, pp, t; auto).
+  destruct (kind =? 0) eqn:Ek.
+  - destruct (mint_wfm s u farm f' F' 0 kf lf) as [s1 m1] eqn:Hm. inversion H; subst s' m amt law; clear H.
+    destruct (mint_wfm_bk' _ _ _ _ _ _ _ _ _ _ Hm) as (Ea & Eb & Ec). split; [exact Ea|]. split; [exact Eb|].
+    split; [|split; [reflexivity | exact Last]].
+    intros K Hi. inversion Hi as [|? ? H1 _]; subst. cbn [item_kf] in H1. apply Z.eqb_eq in Ek.
+    unfold KF. rewrite Ec. apply Forall_app. split; [exact K|]. constructor; [|constructor]. unfold kf_ok. cbn. lia.
+  - mon H r Hr. destruct r as [s1 [tw tl]]. destruct (kill_items_fr _ _ _ _ Hr) as (Ka & Kb & Kc).
+    destruct (mint_wlp s1 tw kf lf) as [s2 n] eqn:Hm2. destruct (mint_wlp_fr _ _ _ _ _ _ Hm2) as (Ma & Mb & Mc).
+    destruct (mint_wfm s2 u farm f' F' 1 n tw) as [s3 m3] eqn:Hm3. inversion H; subst s' m amt law; clear H.
+    destruct (mint_wfm_bk' _ _ _ _ _ _ _ _ _ _ Hm3) as (Ea & Eb & Ec).
+    split; [congruence|]. split; [intros key; rewrite Eb, Mb, Kb; reflexivity|].
+    split; [|split; [reflexivity | exact Last]].
+    intros K Hi. inversion Hi as [|? ? H1 _]; subst. cbn [item_kf] in H1. apply Z.eqb_neq in Ek.
+    unfold KF. rewrite Ec, Mc, Kc. apply Forall_app. split; [exact K|]. constructor; [|constructor]. unfold kf_ok. cbn. lia.
+Qed.
+
+(** when all items belong to one farm, the farm tokens taken are those of [toks] under that farm's keys *)
+Fixpoint ksum (k : Z) (toks : list (Z * Z)) : Z :=
+  match toks with [] => 0 | (n, x) :: t => (if k =? n then x else 0) + ksum k t end.
+
+Lemma fkey_inj f farm f' farm' : (farm = 0 \/ farm = 1) -> (farm' = 0 \/ farm' = 1) ->
+  (fkey f farm =? fkey f' farm') = (f =? f') && (farm =? farm').
+Proof.
+  intros H H'. unfold fkey.
+  destruct (Z.eq_dec f f') as [->|N1]; destruct (Z.eq_dec farm farm') as [->|N2].
+  - rewrite !Z.eqb_refl. reflexivity.
+  - rewrite Z.eqb_refl. replace (farm =? farm') with false by (symmetry; apply Z.eqb_neq; exact N2).
+    apply Z.eqb_neq. lia.
+  - replace (f =? f') with false by (symmetry; apply Z.eqb_neq; exact N1). apply Z.eqb_neq. lia.
+  - replace (f =? f') with false by (symmetry; apply Z.eqb_neq; exact N1). apply Z.eqb_neq. lia.
+Qed.
+
+Lemma ksumf_same its : forall toks farm ki k farm', items_same farm ki its = true -> length toks = length its ->
+  (farm = 0 \/ farm = 1) -> (farm' = 0 \/ farm' = 1) ->
+  ksumf its toks (fkey k farm') = if farm =? farm' then ksum k toks else 0.
+Proof.
+  induction its as [|it t IH]; intros toks farm ki k farm' Hs Hl Hf Hf'.
+  - destruct toks; [|discriminate]. cbn. destruct (farm =? farm'); reflexivity.
+  - destruct it as [[[[fa a] ki0] pn] pp]. destruct toks as [|[f x] toks]; [discriminate|]. cbn [items_same] in Hs.
+    apply andb_prop in Hs. destruct Hs as [Hs1 Hs2]. apply andb_prop in Hs1. destruct Hs1 as [E1 E2]. apply Z.eqb_eq in E1. subst fa.
+    cbn [ksumf ksum]. rewrite (IH toks farm ki k farm' Hs2) by (auto; cbn in Hl; lia).
+    rewrite fkey_inj by assumption. rewrite (Z.eqb_sym f k). destruct (k =? f); destruct (farm =? farm'); cbn [andb]; lia.
+Qed.
+
+(** ---- the books after each endpoint of the proxy *)
+Lemma ep_add_liq_bk s u pid p1 p2 extra e s' x : ep_add_liq s u pid p1 p2 extra e = Ok (s', x) ->
+  bk s s' (fst (fst (v_pair e))) df0.
+Proof.
+  unfold ep_add_liq. intros H. chk H. chk H. chk H. chk H. destruct (v_pair e) as [[lp used1] used2]. cbn [fst].
+  mon H left1 Hl1. mon H left2 Hl2. destruct extra as [|q t].
+  - destruct (mint_wlp_user s u lp _ _) as [s1 n] eqn:Hm. inversion H; subst. eapply mint_wlp_user_bk; eauto.
+  - mon H r Hr. destruct r as [s1 [ta tl]]. mon H z Hz. destruct (v_fact e) as [kf lf].
+    destruct (mint_wlp_user s1 u (lp + ta) kf lf) as [s2 n] eqn:Hm. inversion H; subst.
+    eapply bk_ext; [eapply bk_trans; [eapply take_wlp_list_bk; eauto | eapply mint_wlp_user_bk; eauto] | lia | intros; reflexivity].
+Qed.
+
+Lemma ep_remove_liq_bk s u pid p e s' x : ep_remove_liq s u pid p e = Ok (s', x) -> bk s s' (- p_amt p) df0.
+Proof.
+  unfold ep_remove_liq. intros H. chk H. chk H. mon H r Hr. destruct r as [s1 [k lp]]. chk H.
+  destruct (v_pair e) as [[z rb] ro]. pose proof (take_wlp_user_bk _ _ _ _ _ _ Hr) as B.
+  destruct (lp <? rb); [|mon H en Hen]; inversion H; subst; exact B.
+Qed.
+
+Lemma enter_pre_bk s u farm p s1 kind minted : enter_pre s u farm p = Ok (s1, kind, minted) ->
+  bk s s1 (if p_tok p =? TK_WLP then - p_amt p else 0) df0 /\ ((farm = 0 /\ kind = 0) \/ (farm = 1 /\ kind = 1)) /\
+  (p_tok p = TK_LOCKED \/ p_tok p = TK_WLP) /\ (p_tok p =? TK_WLP) = (farm =? 1).
+Proof.
+  unfold enter_pre. intros H. destruct (p_tok p =? TK_LOCKED) eqn:El.
+  - chk H. inversion H; subst. apply Z.eqb_eq in C, El. rewrite El. cbn. split; [apply bk_same; reflexivity|].
+    split; [left; auto|]. split; [left; reflexivity|]. subst farm. reflexivity.
+  - destruct (p_tok p =? TK_WLP) eqn:Ew; [|discriminate]. destruct (getn (s_wlp s) (p_non p)) as [w|]; [|discriminate].
+    mon H h Hh. mon H z Hz. mon H lp Hlp. apply sub_chk_ok in Hlp. destruct Hlp as [_ ->]. chk H. inversion H; subst.
+    apply Z.eqb_eq in C, Ew. split; [|split; [right; auto | split; [right; exact Ew | subst farm; reflexivity]]].
+    split; [cbn; lia|]. split; [intros key; cbn; unfold df0; lia | auto].
+Qed.
+
+Lemma ep_enter_farm_bk s u farm p extra e s' x : ep_enter_farm s u farm p extra e = Ok (s', x) ->
+  exists s1 kind minted, enter_pre s u farm p = Ok (s1, kind, minted) /\
+    let dlp := if farm =? 1 then - p_amt p else 0 in
+    match extra with
+    | [] => bk s s' dlp (df1 (fkey (fst (v_farm e)) farm) (snd (v_farm e)))
+    | _ => exists s2 its, take_wfm_list s1 u extra = Ok (s2, its) /\
+           forall toks, wfm_toks s1 u extra = Ok toks ->
+             bk s s' dlp (dfadd (fun key => - ksumf its toks key) (df1 (fkey (fst (v_fmerge e)) farm) (snd (v_fmerge e)))) /\
+             items_same farm kind its = true /\ length toks = length its
+    end.
+Proof.
+  unfold ep_enter_farm. intros H. chk H. chk H. mon H r0 Hr0. destruct r0 as [[s1 kind] minted]. chk H.
+  exists s1, kind, minted. split; [exact Hr0|].
+  destruct (enter_pre_bk _ _ _ _ _ _ _ Hr0) as (B0 & Kk & _ & Ew). rewrite Ew in B0. cbv zeta.
+  destruct (v_farm e) as [f F]. destruct (v_rew e) as [rk ra]. cbn [fst snd].
+  destruct extra as [|q t].
+  - destruct (mint_wfm s1 u farm f F kind (p_non p) (p_amt p)) as [s2 m] eqn:Hm. inversion H; subst.
+    eapply bk_ext; [eapply bk_trans; [exact B0 | eapply mint_wfm_bk2; eauto] | lia | intros; unfold dfadd, df0; lia].
+  - mon H r Hr. destruct r as [s2 its]. mon H z Hz. mon H r2 Hr2. destruct r2 as [s5 [[m amt] law]]. inversion H; subst s' x; clear H.
+    exists s2, its. split; [exact Hr|]. intros toks Ht.
+    destruct (take_wfm_list_bk _ _ _ _ _ _ Hr Ht) as (B1 & K1 & _ & N1).
+    destruct (merge_items_bk _ _ _ _ _ _ _ _ _ Hr2) as (Ma & Mb & Mc & _ & (fa & a0 & ki & pn & pp & t0 & Eits & Efa & Es)).
+    inversion Eits; subst fa a0 ki pn pp t0. cbn [items_same] in Es. apply andb_prop in Es. destruct Es as [_ Es].
+    split; [|split; [exact Es | exact N1]].
+    destruct B0 as (A0 & F0 & K0). destruct B1 as (A1 & F1 & K1').
+    split; [lia|]. split.
+    + intros key. rewrite Mb, F1, F0. unfold dfadd, df0. lia.
+    + intros K. apply Mc; [apply K1'; apply K0; exact K|]. constructor; [exact Kk | apply K1; apply K0; exact K].
+Qed.
+
+Lemma ep_exit_farm_bk s u farm p e s' x : ep_exit_farm s u farm p e = Ok (s', x) ->
+  exists w, getn (s_wfm s) (p_non p) = Some w /\ wf_farm w = farm /\
+    bk s s' (if wf_kind w =? 0 then 0 else snd (v_farm e)) (df1 (fkey (wf_f w) farm) (- p_amt p)).
+Proof.
+  unfold ep_exit_farm. intros H. chk H. chk H. mon H r Hr. destruct r as [s1 [w pp]]. chk H. chk H.
+  destruct (v_rew e) as [rk ra]. chk H. apply Z.eqb_eq in C1.
+  destruct (take_wfm_bk _ _ _ _ _ _ _ Hr) as (Hw & B1 & _ & L1). rewrite C1 in B1.
+  exists w. split; [exact Hw|]. split; [exact C1|].
+  set (F := snd (v_farm e)) in *. clearbody F.
+  destruct (F =? p_amt p).
+  - destruct (wf_kind w =? 0); inversion H; subst; [exact B1|].
+    eapply bk_ext; [eapply bk_trans; [exact B1 | apply (bk_ext _ _ F df0 F df0); [|reflexivity | reflexivity]] | lia | intros; unfold dfadd, df0; lia].
+    split; [cbn; lia|]. split; [intros key; cbn; unfold df0; lia | auto].
+  - mon H rem Hrem. destruct (wf_kind w =? 0).
+    + mon H en Hen. inversion H; subst. exact B1.
+    + destruct (getn (s_wlp s1) (wf_pn w)) as [wl|]; [|discriminate].
+      mon H lnew Hln. mon H r2 Hr2. destruct r2 as [s2 [k lold]]. mon H extra Hex. mon H en Hen.
+      destruct (mint_wlp (upd_lp s2 (s_lp s2 + F)) rem k lnew) as [s4 n] eqn:Hm. inversion H; subst s' x; clear H.
+      destruct (kill_wlp_fr _ _ _ _ _ Hr2) as (Ka & Kb & Kc). destruct (mint_wlp_fr _ _ _ _ _ _ Hm) as (Ma & Mb & Mc).
+      cbn in Ma, Mb, Mc. destruct B1 as (A1 & F1 & K1).
+      split; [cbn; lia|]. split; [intros key; cbn; rewrite Mb, Kb, F1; lia|].
+      intros K. unfold KF. cbn. rewrite Mc, Kc. apply K1. exact K.
+Qed.
+
+Lemma ep_claim_bk s u farm p e s' x : ep_claim s u farm p e = Ok (s', x) ->
+  exists w, getn (s_wfm s) (p_non p) = Some w /\ wf_farm w = farm /\
+    bk s s' 0 (dfadd (df1 (fkey (wf_f w) farm) (- p_amt p)) (df1 (fkey (fst (v_farm e)) farm) (snd (v_farm e)))).
+Proof.
+  unfold ep_claim. intros H. chk H. chk H. mon H r Hr. destruct r as [s1 [w pp]]. chk H. chk H. apply Z.eqb_eq in C1.
+  destruct (v_farm e) as [f F]. destruct (v_rew e) as [rk ra]. cbn [fst snd].
+  destruct (mint_wfm s1 u farm f F (wf_kind w) (wf_pn w) pp) as [s2 m] eqn:Hm. inversion H; subst s' x; clear H.
+  destruct (take_wfm_bk _ _ _ _ _ _ _ Hr) as (Hw & B1 & K1 & L1). rewrite C1 in B1.
+  exists w. split; [exact Hw|]. split; [exact C1|].
+  destruct (mint_wfm_bk' _ _ _ _ _ _ _ _ _ _ Hm) as (Ea & Eb & Ec). destruct B1 as (A1 & F1 & K1').
+  split; [lia|]. split; [intros key; rewrite Eb, F1; unfold dfadd; lia|].
+  intros K. unfold KF. rewrite Ec. apply Forall_app. split; [apply K1'; exact K|]. constructor; [|constructor].
+  specialize (K1 K). unfold kf_ok in *. cbn. rewrite <- C1. exact K1.
+Qed.
+
+Lemma ep_merge_wlp_bk s u ps e s' x : ep_merge_wlp s u ps e = Ok (s', x) -> bk s s' 0 df0.
+Proof.
+  unfold ep_merge_wlp. intros H. chk H. mon H r Hr. destruct r as [s1 [ta tl]]. chk H. destruct (v_fact e) as [kf lf].
+  destruct (mint_wlp_user s1 u ta kf lf) as [s2 n] eqn:Hm. inversion H; subst.
+  eapply bk_ext; [eapply bk_trans; [eapply take_wlp_list_bk; eauto | eapply mint_wlp_user_bk; eauto] | lia | intros; reflexivity].
+Qed.
+
+Lemma ep_merge_wfm_bk s u farm ps e s' x : ep_merge_wfm s u farm ps e = Ok (s', x) ->
+  exists s1 its, take_wfm_list s u ps = Ok (s1, its) /\
+    forall toks, wfm_toks s u ps = Ok toks ->
+      bk s s' 0 (dfadd (fun key => - ksumf its toks key) (df1 (fkey (fst (v_fmerge e)) farm) (snd (v_fmerge e)))) /\
+      (exists ki, items_same farm ki its = true) /\ length toks = length its.
+Proof.
+  unfold ep_merge_wfm. intros H. chk H. chk H. mon H r Hr. destruct r as [s1 its].
+  mon H r2 Hr2. destruct r2 as [s2 [[m amt] law]]. destruct (v_rew e) as [rk ra]. inversion H; subst s' x; clear H.
+  exists s1, its. split; [exact Hr|]. intros toks Ht.
+  destruct (take_wfm_list_bk _ _ _ _ _ _ Hr Ht) as (B1 & K1 & _ & N1).
+  destruct (merge_items_bk _ _ _ _ _ _ _ _ _ Hr2) as (Ma & Mb & Mc & _ & (fa & a0 & ki & pn & pp & t0 & Eits & Efa & Es)).
+  subst fa. split; [|split; [exists ki; exact Es | exact N1]].
+  destruct B1 as (A1 & F1 & K1').
+  split; [cbn; lia|]. split.
+  - intros key. cbn [s_farm locked_in upd_locked]. rewrite Mb, F1. unfold dfadd. lia.
+  - intros K. unfold KF. cbn [s_wfm locked_in upd_locked]. apply Mc; [apply K1'; exact K | apply K1; exact K].
+Qed.
+
+Lemma ep_inc_lp_bk s u p e s' x : ep_inc_lp s u p e = Ok (s', x) -> bk s s' 0 df0.
+Proof.
+  unfold ep_inc_lp. intros H. chk H. mon H r Hr. destruct r as [s1 [k lp]]. chk H. destruct (v_fact e) as [kf lf].
+  destruct (mint_wlp_user s1 u (p_amt p) kf lf) as [s2 n] eqn:Hm. inversion H; subst.
+  eapply bk_ext; [eapply bk_trans; [eapply take_wlp_user_bk; eauto | eapply mint_wlp_user_bk; eauto] | lia | intros; reflexivity].
+Qed.
+
+Lemma ep_inc_fm_bk s u p e s' x : ep_inc_fm s u p e = Ok (s', x) -> bk s s' 0 df0.
+Proof.
+  unfold ep_inc_fm. intros H. chk H. mon H r Hr. destruct r as [s1 [w pp]]. destruct (v_fact e) as [kf lf].
+  destruct (take_wfm_bk _ _ _ _ _ _ _ Hr) as (Hw & (A1 & F1 & K1') & K1 & L1).
+  destruct (wf_kind w =? 0) eqn:Ek.
+  - chk H. destruct (mint_wfm s1 u (wf_farm w) (wf_f w) (p_amt p) 0 kf lf) as [s2 m] eqn:Hm. inversion H; subst s' x; clear H.
+    destruct (mint_wfm_bk' _ _ _ _ _ _ _ _ _ _ Hm) as (Ea & Eb & Ec).
+    split; [lia|]. split; [intros key; rewrite Eb, F1; unfold df1, df0; destruct (_ =? key); lia|].
+    intros K. unfold KF. rewrite Ec. apply Forall_app. split; [apply K1'; exact K|]. constructor; [|constructor].
+    specialize (K1 K). apply Z.eqb_eq in Ek. unfold kf_ok in *. cbn. lia.
+  - mon H r2 Hr2. destruct r2 as [s2 [k lq]]. chk H. destruct (release_wlp_fr _ _ _ _ _ Hr2) as (Ra & Rb & Rc).
+    destruct (mint_wlp s2 pp kf lf) as [s3 n] eqn:Hm3. destruct (mint_wlp_fr _ _ _ _ _ _ Hm3) as (Ma & Mb & Mc).
+    destruct (mint_wfm s3 u (wf_farm w) (wf_f w) (p_amt p) 1 n pp) as [s4 m] eqn:Hm4. inversion H; subst s' x; clear H.
+    destruct (mint_wfm_bk' _ _ _ _ _ _ _ _ _ _ Hm4) as (Ea & Eb & Ec).
+    split; [lia|]. split; [intros key; rewrite Eb, Mb, Rb, F1; unfold df1, df0; destruct (_ =? key); lia|].
+    intros K. unfold KF. rewrite Ec, Mc, Rc. apply Forall_app. split; [apply K1'; exact K|]. constructor; [|constructor].
+    specialize (K1 K). apply Z.eqb_neq in Ek. unfold kf_ok in *. cbn. lia.
+Qed.
+
+Lemma plain_bk s o s' x : step s o = Ok (s', x) ->
+  match o with SetPair _ _ | SetFarm _ _ _ | XferWlp _ _ _ _ | XferWfm _ _ _ _ => bk s s' 0 df0 | _ => True end.
+Proof.
+  destruct o; cbn [step]; intros H; try exact I.
+  - chk H. chk H. inversion H; subst. apply bk_same; reflexivity.
+  - chk H. chk H. chk H. inversion H; subst. destruct (farm =? 0); apply bk_same; reflexivity.
+  - unfold ep_xfer_wlp in H. chk H. mon H h Hh. inversion H; subst. apply bk_same; reflexivity.
+  - unfold ep_xfer_wfm in H. chk H. mon H h Hh. inversion H; subst. apply bk_same; reflexivity.
+Qed.
+
+(** ---- the pair model's LP ledger, row of the proxy *)
+Module PL.
+Import MX.Model.Pair.
+
+Definition lpx (p : pair) : Z := lp_of p PX.
+
+Lemma set_pool_lp p a b c : p_lp (set_pool p a b c) = p_lp p. Proof. reflexivity. Qed.
+Lemma set_bals_lp p a b : p_lp (set_bals p a b) = p_lp p. Proof. reflexivity. Qed.
+Lemma add_bal_lp p t a : p_lp (add_bal p t a) = p_lp p. Proof. unfold add_bal. destruct (t =? T1); reflexivity. Qed.
+Lemma set_rs_lp p o a b : p_lp (set_rs p o a b) = p_lp p. Proof. unfold set_rs. destruct o; reflexivity. Qed.
+
+Lemma sub_bal_lp p t a p' : sub_bal p t a = Ok p' -> p_lp p' = p_lp p.
+Proof. unfold sub_bal. intros H. apply bind_ok in H. destruct H as (b & _ & H). inversion H; subst. destruct (t =? T1); reflexivity. Qed.
+
+Lemma burn_tok_lp p e t a p' e' : burn_tok p e t a = Ok (p', e') -> p_lp p' = p_lp p.
+Proof.
+  unfold burn_tok. destruct (a =? 0); intros H; [inversion H; reflexivity|].
+  apply bind_ok in H. destruct H as (p1 & H1 & H). inversion H; subst. eapply sub_bal_lp; eauto.
+Qed.
+
+Lemma swap_safe_lp p o a p' out : swap_safe_no_fee p o a = Ok (p', out) -> p_lp p' = p_lp p.
+Proof.
+  unfold swap_safe_no_fee. intros H. destruct (negb _); [|discriminate].
+  apply bind_ok in H. destruct H as (x & _ & H). destruct (_ && _); [|discriminate].
+  apply bind_ok in H. destruct H as (ro & _ & H). inversion H; subst. apply set_rs_lp.
+Qed.
+
+Lemma send_fee_slice_lp p e o ft slice req p' e' : send_fee_slice p e o ft slice req = Ok (p', e') -> p_lp p' = p_lp p.
+Proof.
+  unfold send_fee_slice. intros H. destruct (ft =? req); [eapply burn_tok_lp; eauto|].
+  destruct (_ || _).
+  - apply bind_ok in H. destruct H as ([p1 out] & H1 & H). rewrite (burn_tok_lp _ _ _ _ _ _ H). eapply swap_safe_lp; eauto.
+  - destruct (has_trusted p ft req).
+    + apply bind_ok in H. destruct H as (p1 & H1 & H). inversion H; subst. eapply sub_bal_lp; eauto.
+    + destruct (_ && _); [|discriminate].
+      apply bind_ok in H. destruct H as ([p1 out] & H1 & H). apply bind_ok in H. destruct H as (p2 & H2 & H).
+      inversion H; subst. rewrite (sub_bal_lp _ _ _ _ H2). eapply swap_safe_lp; eauto.
+Qed.
+
+Lemma send_slices_lp ds : forall p e o ft slice p' e', send_slices p e o ft slice ds = Ok (p', e') -> p_lp p' = p_lp p.
+Proof.
+  induction ds as [|[a req] t IH]; intros p e o ft slice p' e' H; simpl in H.
+  - inversion H; reflexivity.
+  - apply bind_ok in H. destruct H as ([p1 e1] & H1 & H). rewrite (IH _ _ _ _ _ _ _ H). eapply send_fee_slice_lp; eauto.
+Qed.
+
+Lemma send_fee_lp p e o ft fee p' e' : send_fee p e o ft fee = Ok (p', e') -> p_lp p' = p_lp p.
+Proof.
+  unfold send_fee. destruct (fee =? 0); intros H; [inversion H; reflexivity|].
+  apply bind_ok in H. destruct H as ([[p1 e1] rest] & H1 & H).
+  assert (E1 : p_lp p1 = p_lp p).
+  { destruct (p_cut p) as [cut|]; [|inversion H1; reflexivity].
+    apply bind_ok in H1. destruct H1 as (rem & _ & H1). destruct (0 <? _); [|inversion H1; reflexivity].
+    apply bind_ok in H1. destruct H1 as (p2 & H2 & H1). inversion H1; subst. eapply sub_bal_lp; eauto. }
+  destruct (_ =? 0); [inversion H; subst; exact E1|]. destruct (_ =? 0); [inversion H; subst; exact E1|].
+  rewrite (send_slices_lp _ _ _ _ _ _ _ _ H). exact E1.
+Qed.
+
+Lemma lp_of_credit p a amt b : lp_of (lp_credit p a amt) b = if a =? b then lp_of p b + amt else lp_of p b.
+Proof.
+  unfold lp_credit, lp_of, set_lp. simpl. destruct (a =? b) eqn:E.
+  - apply Z.eqb_eq in E. subst. apply aget_aset_same.
+  - apply Z.eqb_neq in E. apply aget_aset_other. exact E.
+Qed.
+
+Lemma lp_of_debit p a amt p' b : lp_debit p a amt = Ok p' -> lp_of p' b = if a =? b then lp_of p b - amt else lp_of p b.
+Proof.
+  unfold lp_debit. intros H. destruct (negb _); [|discriminate]. apply bind_ok in H. destruct H as (x & Hx & H).
+  apply sub_chk_ok in Hx. destruct Hx as [_ ->]. inversion H; subst. unfold lp_of, set_lp. simpl. destruct (a =? b) eqn:E.
+  - apply Z.eqb_eq in E. subst. apply aget_aset_same.
+  - apply Z.eqb_neq in E. apply aget_aset_other. exact E.
+Qed.
+
+Lemma lp_of_eq p p' b : p_lp p' = p_lp p -> lp_of p' b = lp_of p b.
+Proof. unfold lp_of. intros ->. reflexivity. Qed.
+
+Lemma pool_remove_lp p lp m1 m2 p' x1 x2 : pool_remove p lp m1 m2 = Ok (p', x1, x2) -> p_lp p' = p_lp p.
+Proof.
+  unfold pool_remove. intros H. destruct (_ <=? _); [|discriminate].
+  apply bind_ok in H. destruct H as (y1 & _ & H). destruct (0 <? y1); [|discriminate]. destruct (m1 <=? y1); [|discriminate].
+  destruct (y1 <? _); [|discriminate].
+  apply bind_ok in H. destruct H as (y2 & _ & H). destruct (0 <? y2); [|discriminate]. destruct (m2 <=? y2); [|discriminate].
+  destruct (y2 <? _); [|discriminate].
+  apply bind_ok in H. destruct H as (s' & _ & H). apply bind_ok in H. destruct H as (r1 & _ & H).
+  apply bind_ok in H. destruct H as (r2 & _ & H). inversion H; subst. reflexivity.
+Qed.
+
+(** addLiquidity by [c]: [c]'s LP balance grows by the LP minted; the pair's own row may grow (first liquidity) *)
+Lemma ep_add_row p c a1 a2 m1 m2 p' o e b : ep_add p c a1 a2 m1 m2 = Ok (p', o, e) -> b <> SELF ->
+  lp_of p' b = lp_of p b + (if c =? b then nth 0 o 0 else 0).
+Proof.
+  unfold ep_add. intros H Hb. destruct (_ && _); [|discriminate]. destruct (_ && _); [|discriminate].
+  destruct (is_state_active _); [|discriminate]. destruct (match p_adder p with Some _ => _ | None => _ end); [|discriminate].
+  apply bind_ok in H. destruct H as ([o1 o2] & _ & H). apply bind_ok in H. destruct H as ([p1 liq] & Hl & H).
+  destruct (k_check p p1); [|discriminate]. inversion H; subst p' o e; clear H. cbn [nth].
+  rewrite lp_of_credit. rewrite !(lp_of_eq p1 (add_bal (add_bal p1 T1 o1) T2 o2)) by (rewrite !add_bal_lp; reflexivity).
+  assert (E : lp_of p1 b = lp_of p b).
+  { destruct (p_S p =? 0).
+    - destruct (_ <? _); [|discriminate]. inversion Hl; subst. rewrite (lp_of_eq (lp_credit p SELF MINIMUM_LIQUIDITY) _) by reflexivity.
+      rewrite lp_of_credit. destruct (SELF =? b) eqn:E0; [apply Z.eqb_eq in E0; congruence | reflexivity].
+    - apply bind_ok in Hl. destruct Hl as (l1 & _ & Hl). apply bind_ok in Hl. destruct Hl as (l2 & _ & Hl).
+      destruct (0 <? _); [|discriminate]. inversion Hl; subst. reflexivity. }
+  rewrite E. destruct (c =? b); lia.
+Qed.
+
+Lemma ep_remove_row p c lp m1 m2 p' o e b : ep_remove p c lp m1 m2 = Ok (p', o, e) ->
+  lp_of p' b = lp_of p b - (if c =? b then lp else 0).
+Proof.
+  unfold ep_remove. intros H. destruct (_ && _); [|discriminate]. destruct (is_state_active _); [|discriminate].
+  destruct (0 <? lp); [|discriminate].
+  apply bind_ok in H. destruct H as (p0 & H0 & H). apply bind_ok in H. destruct H as ([[p1 x1] x2] & H1 & H).
+  destruct (_ <=? _); [|discriminate].
+  apply bind_ok in H. destruct H as (p2 & H2 & H). apply bind_ok in H. destruct H as (p3 & H3 & H). inversion H; subst p' o e; clear H.
+  rewrite (lp_of_eq p0 p3) by (rewrite (sub_bal_lp _ _ _ _ H3), (sub_bal_lp _ _ _ _ H2); eapply pool_remove_lp; eauto).
+  rewrite (lp_of_debit _ _ _ _ b H0). destruct (c =? b); lia.
+Qed.
+
+Lemma ep_lp_transfer_row p s d amt p' o e b : ep_lp_transfer p s d amt = Ok (p', o, e) ->
+  lp_of p' b = lp_of p b - (if s =? b then amt else 0) + (if d =? b then amt else 0).
+Proof.
+  unfold ep_lp_transfer. intros H. destruct (0 <? amt); [|discriminate].
+  apply bind_ok in H. destruct H as (p1 & H1 & H). inversion H; subst. rewrite lp_of_credit, (lp_of_debit _ _ _ _ b H1).
+  destruct (s =? b); destruct (d =? b); lia.
+Qed.
+
+(** an operation of the pair that does not name [b] leaves [b]'s LP balance alone *)
+Lemma step_row p o p' po ef b : step p o = Ok (p', po, ef) -> b <> SELF -> ~ In b (pair_accts o) -> lp_of p' b = lp_of p b.
+Proof.
+  intros H Hs Hn. destruct o; cbn [step pair_accts] in *.
+  - (* add initial *) unfold ep_add_initial in H. destruct (match p_adder p with Some _ => _ | None => _ end); [|discriminate].
+    destruct (_ && _); [|discriminate]. destruct (negb _); [|discriminate]. destruct (_ =? 0); [|discriminate]. cbv zeta in H.
+    destruct (MINIMUM_LIQUIDITY <? Z.min a1 a2); [|discriminate]. inversion H; subst.
+    match goal with |- lp_of (set_state ?q ?st) b = _ => rewrite (lp_of_eq q (set_state q st) b) by reflexivity end.
+    rewrite lp_of_credit. rewrite !(lp_of_eq (lp_credit p SELF MINIMUM_LIQUIDITY) (add_bal (add_bal (set_pool (lp_credit p SELF MINIMUM_LIQUIDITY) (p_r1 p + a1) (p_r2 p + a2) (Z.min a1 a2)) T1 a1) T2 a2)) by (rewrite !add_bal_lp; reflexivity).
+    rewrite lp_of_credit.
+    destruct (c =? b) eqn:E1; [apply Z.eqb_eq in E1; exfalso; apply Hn; left; exact E1|].
+    destruct (SELF =? b) eqn:E2; [apply Z.eqb_eq in E2; congruence | reflexivity].
+  - rewrite (ep_add_row _ _ _ _ _ _ _ _ _ b H Hs). destruct (c =? b) eqn:E1; [apply Z.eqb_eq in E1; exfalso; apply Hn; left; exact E1 | lia].
+  - rewrite (ep_remove_row _ _ _ _ _ _ _ _ b H). destruct (c =? b) eqn:E1; [apply Z.eqb_eq in E1; exfalso; apply Hn; left; exact E1 | lia].
+  - (* swap in *) apply lp_of_eq. unfold ep_swap_in in H. destruct (0 <? minout); [|discriminate]. destruct (0 <? ain); [|discriminate].
+    apply bind_ok in H. destruct H as (o & _ & H). destruct (can_swap _); [|discriminate]. destruct (minout <? _); [|discriminate].
+    apply bind_ok in H. destruct H as (out & _ & H). destruct (minout <=? out); [|discriminate]. destruct (out <? _); [|discriminate].
+    destruct (negb _); [|discriminate]. cbv zeta in H. apply bind_ok in H. destruct H as (after & _ & H).
+    apply bind_ok in H. destruct H as (ro & _ & H). destruct (k_check _ _); [|discriminate].
+    apply bind_ok in H. destruct H as ([p3 e] & H3 & H). apply bind_ok in H. destruct H as (p4 & H4 & H). inversion H; subst.
+    rewrite (sub_bal_lp _ _ _ _ H4).
+    destruct (0 <? _); [rewrite (send_fee_lp _ _ _ _ _ _ _ H3) | inversion H3; subst]; rewrite add_bal_lp, set_rs_lp; reflexivity.
+  - (* swap out *) apply lp_of_eq. unfold ep_swap_out in H. destruct (0 <? aout); [|discriminate]. destruct (0 <? ainmax); [|discriminate].
+    apply bind_ok in H. destruct H as (o & _ & H). destruct (can_swap _); [|discriminate]. destruct (aout <? _); [|discriminate].
+    apply bind_ok in H. destruct H as (ain & _ & H). destruct (ain <=? ainmax); [|discriminate]. destruct (negb _); [|discriminate].
+    cbv zeta in H. apply bind_ok in H. destruct H as (after & _ & H).
+    apply bind_ok in H. destruct H as (ro & _ & H). destruct (k_check _ _); [|discriminate].
+    apply bind_ok in H. destruct H as ([p3 e] & H3 & H). apply bind_ok in H. destruct H as (p4 & H4 & H). inversion H; subst.
+    rewrite (sub_bal_lp _ _ _ _ H4).
+    destruct (0 <? _); [rewrite (send_fee_lp _ _ _ _ _ _ _ H3) | inversion H3; subst]; rewrite add_bal_lp, set_rs_lp; reflexivity.
+  - (* swap no fee *) apply lp_of_eq. unfold ep_swap_no_fee in H. destruct (existsb _ _); [|discriminate]. destruct (0 <? ain); [|discriminate].
+    apply bind_ok in H. destruct H as (o & _ & H). destruct (can_swap _); [|discriminate].
+    apply bind_ok in H. destruct H as ([p1 out] & H1 & H). destruct (0 <? out); [|discriminate]. destruct (k_check _ _); [|discriminate].
+    apply bind_ok in H. destruct H as ([p3 e] & H3 & H). inversion H; subst.
+    rewrite (burn_tok_lp _ _ _ _ _ _ H3), add_bal_lp. eapply swap_safe_lp; eauto.
+  - (* remove buy back *) unfold ep_remove_buyback in H. destruct (existsb _ _); [|discriminate]. destruct (0 <? lp); [|discriminate].
+    apply bind_ok in H. destruct H as (p0 & H0 & H). apply bind_ok in H. destruct H as ([[p1 x1] x2] & H1 & H).
+    apply bind_ok in H. destruct H as ([p2 e2] & H2 & H). apply bind_ok in H. destruct H as ([p3 e3] & H3 & H). inversion H; subst.
+    rewrite (lp_of_eq p0 p') by (rewrite (send_fee_slice_lp _ _ _ _ _ _ _ _ H3), (send_fee_slice_lp _ _ _ _ _ _ _ _ H2); eapply pool_remove_lp; eauto).
+    rewrite (lp_of_debit _ _ _ _ b H0). destruct (c =? b) eqn:E1; [apply Z.eqb_eq in E1; exfalso; apply Hn; left; exact E1 | reflexivity].
+  - unfold ep_set_fee in H. destruct (has_owner_perm c); [|discriminate]. destruct (_ && _); [|discriminate]. inversion H; subst. reflexivity.
+  - unfold ep_set_fee_on in H. destruct (has_owner_perm c); [|discriminate]. destruct en.
+    + destruct (negb _); [|discriminate]. inversion H; subst. reflexivity.
+    + destruct (existsb _ _); [|discriminate]. destruct (existsb _ _); [|discriminate]. inversion H; subst. reflexivity.
+  - unfold ep_set_collector in H. destruct (has_owner_perm c); [|discriminate]. destruct (_ && _); [|discriminate]. inversion H; subst. reflexivity.
+  - unfold ep_set_state in H. destruct (has_owner_perm c); [|discriminate]. destruct (_ && _); [|discriminate]. inversion H; subst. reflexivity.
+  - unfold ep_wl_add in H. destruct (has_owner_perm c); [|discriminate]. destruct (negb _); [|discriminate]. inversion H; subst. reflexivity.
+  - unfold ep_wl_rm in H. destruct (has_owner_perm c); [|discriminate]. destruct (existsb _ _); [|discriminate]. inversion H; subst. reflexivity.
+  - unfold ep_trust in H. destruct (has_owner_perm c); [|discriminate]. destruct (negb _); [|discriminate]. destruct (negb _); [|discriminate].
+    inversion H; subst. reflexivity.
+  - rewrite (ep_lp_transfer_row _ _ _ _ _ _ _ b H).
+    destruct (src =? b) eqn:E1; [apply Z.eqb_eq in E1; exfalso; apply Hn; left; exact E1|].
+    destruct (dst =? b) eqn:E2; [apply Z.eqb_eq in E2; exfalso; apply Hn; right; left; exact E2 | lia].
+  - unfold ep_donate in H. destruct (_ && _); [|discriminate]. inversion H; subst. apply lp_of_eq. apply add_bal_lp.
+Qed.
+End PL.
+
+(** ---- the farm models' position ledger, row of the proxy (the technique of the closed metastaking composition) *)
+Module FH.
+Import MX.Model.Farm.
+
+Definition hpx (f : farm) (k : Z) : Z := held f k PX.
+
+(** an operation of a farm names only accounts other than the proxy *)
+Definition user_op (op : fop) : Prop := Forall (fun c => FI.valid_id c /\ c <> PX) (farm_accts op).
+
+Lemma key_other n c k : FI.valid_id c -> c <> PX -> hkey n c <> hkey k PX.
+Proof. unfold hkey, FI.valid_id, PX. intros. lia. Qed.
+
+Lemma pxkey_ne k k' : k <> k' -> hkey k PX <> hkey k' PX.
+Proof. unfold hkey. lia. Qed.
+
+Lemma debit_other f c p f' : debit_held f c p = Ok f' -> FI.valid_id c -> c <> PX -> forall k, hpx f' k = hpx f k.
+Proof.
+  unfold debit_held. destruct p as [n x]. intros H Hc Hne k. destruct (0 <? x); [|discriminate].
+  mon H b Hb. inversion H; subst. unfold hpx, held. cbn [f_held upd_tokens]. apply aget_aset_other. apply key_other; assumption.
+Qed.
+
+Lemma pay_in_other f c p f' : pay_in f c p = Ok f' -> FI.valid_id c -> c <> PX -> forall k, hpx f' k = hpx f k.
+Proof.
+  unfold pay_in. intros H Hc Hne k. mon H f1 H1. mon H o Ho. inversion H; subst.
+  unfold hpx, held. cbn [f_held upd_out]. apply (debit_other _ _ _ _ H1 Hc Hne k).
+Qed.
+
+Lemma pay_all_other ps : forall f c f', pay_all f c ps = Ok f' -> FI.valid_id c -> c <> PX -> forall k, hpx f' k = hpx f k.
+Proof.
+  induction ps as [|p t IH]; intros f c f' H Hc Hne k; simpl in H.
+  - inversion H; subst. reflexivity.
+  - mon H f1 H1. rewrite (IH _ _ _ H Hc Hne k). apply (pay_in_other _ _ _ _ H1 Hc Hne k).
+Qed.
+
+Lemma settle_held f blk f' : settle f blk = Ok f' -> f_held f' = f_held f.
+Proof.
+  unfold settle. destruct (blk <=? f_last f); [intros H; inversion H; reflexivity|]. cbv zeta.
+  destruct (_ =? 0); [intros H; inversion H; reflexivity|]. intros H. mon H inc Hinc. inversion H; subst. reflexivity.
+Qed.
+
+Lemma pay_reward_held f r b f' : pay_reward f r b = Ok f' -> f_held f' = f_held f.
+Proof. intros H. destruct (FI.pay_reward_spec _ _ _ _ H) as (_ & T & _). unfold FI.toks in T. congruence. Qed.
+
+Lemma check_update_held ps f u f' : check_update f u ps = Ok f' -> f_held f' = f_held f.
+Proof. intros H. apply FI.check_update_only in H. destruct H as (_ & _ & _ & E & _). exact E. Qed.
+
+Lemma decrease_user_held f p f' : decrease_user f p = Ok f' -> f_held f' = f_held f.
+Proof. intros H. apply FI.decrease_user_only in H. destruct H as (_ & _ & _ & E & _). exact E. Qed.
+
+Lemma mint_other f m c f' n : mint_pos f m c = (f', n) -> FI.valid_id c -> c <> PX -> forall k, hpx f' k = hpx f k.
+Proof.
+  unfold mint_pos. intros H Hc Hne k. inversion H; subst. unfold hpx, held. cbn [f_held upd_out upd_tokens].
+  apply aget_aset_other. apply key_other; assumption.
+Qed.
+
+Lemma hpx_held f f' : f_held f' = f_held f -> forall k, hpx f' k = hpx f k.
+Proof. intros E k. unfold hpx, held. rewrite E. reflexivity. Qed.
+
+Ltac uop U := cbn [farm_accts] in U; unfold user_op in U; cbn [farm_accts] in U;
+  repeat match goal with H : Forall _ (_ :: _) |- _ => inversion H; subst; clear H end.
+
+(** operations of other accounts (and the owner's) never touch what the proxy holds *)
+Lemma fstep_user_frame f op f' o : fstep f op = Ok (f', o) -> user_op op -> forall k, hpx f' k = hpx f k.
+Proof.
+  intros H U k. unfold user_op in U. destruct op; cbn [fstep farm_accts] in H, U.
+  - (* enter *) inversion U as [|? ? [Hc Hne] _]; subst. unfold ep_enter in H. destruct (0 <? amt); [|discriminate].
+    mon H f0 H0. destruct (active f0); [|discriminate]. mon H f1 H1. mon H f2 H2. mon H f4 H4. mon H m Hm.
+    destruct (mint_pos _ m c) as [f6 n] eqn:Em. inversion H; subst f' o. clear H.
+    unfold hpx at 1, held. cbn [f_held upd_money]. fold (held f6 k PX). fold (hpx f6 k).
+    rewrite (mint_other _ _ _ _ _ Em Hc Hne k). unfold hpx at 1, held. cbn [f_held upd_core].
+    rewrite (settle_held _ _ _ H4). cbn [f_held increase_user set_utot upd_tokens].
+    rewrite (check_update_held _ _ _ _ H2). fold (held f1 k PX). fold (hpx f1 k).
+    rewrite (pay_all_other _ _ _ _ H1 Hc Hne k). apply hpx_held. apply (pay_reward_held _ _ _ _ H0).
+  - (* claim *) inversion U as [|? ? [Hc Hne] _]; subst. unfold ep_claim in H. destruct (active f); [|discriminate].
+    mon H f1 H1. mon H f2 H2. mon H a Ha. mon H part Hp. mon H base Hb. mon H f3 H3. mon H f4 H4. mon H m Hm.
+    destruct (mint_pos f4 m c) as [f5 n] eqn:Em. inversion H; subst f' o. clear H.
+    rewrite (mint_other _ _ _ _ _ Em Hc Hne k), (hpx_held _ _ (check_update_held _ _ _ _ H4)),
+            (hpx_held _ _ (pay_reward_held _ _ _ _ H3)), (hpx_held _ _ (settle_held _ _ _ H2)).
+    apply (pay_all_other _ _ _ _ H1 Hc Hne k).
+  - (* compound *) inversion U as [|? ? [Hc Hne] _]; subst. unfold ep_compound in H. destruct (active f); [|discriminate].
+    destruct (f_same f); [|discriminate].
+    mon H f1 H1. mon H f2 H2. mon H a Ha. mon H part Hp. mon H base Hb. cbv zeta in H. mon H f3 H3. mon H f4 H4. mon H m Hm.
+    destruct (mint_pos f4 m c) as [f5 n] eqn:Em. inversion H; subst f' o. clear H.
+    unfold hpx at 1, held. cbn [f_held upd_money increase_user set_utot upd_tokens]. fold (held f5 k PX). fold (hpx f5 k).
+    rewrite (mint_other _ _ _ _ _ Em Hc Hne k), (hpx_held _ _ (check_update_held _ _ _ _ H4)).
+    unfold hpx at 1, held. cbn [f_held upd_core]. fold (held f3 k PX). fold (hpx f3 k).
+    rewrite (hpx_held _ _ (pay_reward_held _ _ _ _ H3)), (hpx_held _ _ (settle_held _ _ _ H2)).
+    apply (pay_all_other _ _ _ _ H1 Hc Hne k).
+  - (* exit *) inversion U as [|? ? [Hc Hne] _]; subst. unfold ep_exit in H. destruct (active f); [|discriminate].
+    mon H f1 H1. mon H f2 H2. mon H a Ha. mon H part Hp. mon H base Hb. mon H f3 H3. mon H f4 H4.
+    mon H sup Hsup. mon H age Hage. cbv zeta in H. mon H out Hout. mon H bal Hbal. inversion H; subst f' o. clear H.
+    unfold hpx at 1, held. cbn [f_held upd_money upd_core]. fold (held f4 k PX). fold (hpx f4 k).
+    rewrite (hpx_held _ _ (decrease_user_held _ _ _ H4)), (hpx_held _ _ (pay_reward_held _ _ _ _ H3)),
+            (hpx_held _ _ (settle_held _ _ _ H2)).
+    apply (pay_in_other _ _ _ _ H1 Hc Hne k).
+  - (* merge *) inversion U as [|? ? [Hc Hne] _]; subst. unfold ep_merge in H. destruct (active f); [|discriminate].
+    destruct ps as [|first rest]; [discriminate|].
+    mon H f0 H0. mon H f1 H1. mon H f2 H2. mon H a Ha. mon H part Hp. mon H m0 Hm.
+    destruct (mint_pos f2 _ c) as [f3 n] eqn:Em. inversion H; subst f' o. clear H.
+    rewrite (mint_other _ _ _ _ _ Em Hc Hne k), (hpx_held _ _ (check_update_held _ _ _ _ H2)),
+            (pay_all_other _ _ _ _ H1 Hc Hne k).
+    apply hpx_held. apply (pay_reward_held _ _ _ _ H0).
+  - (* claim boosted *) unfold ep_claim_boosted in H. destruct (negb _); [|discriminate]. destruct (active f); [|discriminate].
+    mon H f1 H1. mon H f2 H2. inversion H; subst f' o. clear H.
+    rewrite (hpx_held _ _ (pay_reward_held _ _ _ _ H2)). apply hpx_held. apply (settle_held _ _ _ H1).
+  - (* transfer *) inversion U as [|? ? [Hs Hns] U2]; subst. inversion U2 as [|? ? [Hd Hnd] _]; subst.
+    unfold ep_transfer in H. mon H f1 H1. inversion H; subst f' o. clear H.
+    unfold hpx at 1, held. cbn [f_held upd_tokens]. rewrite aget_aset_other by (apply key_other; assumption).
+    apply (debit_other _ _ _ _ H1 Hs Hns k).
+  - destruct (admin c); [|discriminate]. destruct (_ && _); [|discriminate]. mon H f1 H1. inversion H; subst. apply hpx_held. cbn. apply (settle_held _ _ _ H1).
+  - destruct (admin c); [|discriminate]. destruct (negb _); [|discriminate]. destruct (negb _); [|discriminate]. inversion H; subst. reflexivity.
+  - destruct (admin c); [|discriminate]. mon H f1 H1. inversion H; subst. apply hpx_held. cbn. apply (settle_held _ _ _ H1).
+  - destruct (admin c); [|discriminate]. destruct (_ && _); [|discriminate]. mon H f1 H1. inversion H; subst. apply hpx_held. cbn. apply (settle_held _ _ _ H1).
+  - destruct (admin c); [|discriminate]. inversion H; subst. reflexivity.
+  - destruct (admin c); [|discriminate]. destruct (_ || _); [|discriminate]. inversion H; subst. reflexivity.
+  - destruct (admin c); [|discriminate]. destruct (_ && _); [|discriminate]. inversion H; subst. reflexivity.
+  - destruct (admin c); [|discriminate]. destruct (_ && _); [|discriminate]. inversion H; subst. reflexivity.
+  - destruct (0 <? amt); [|discriminate]. inversion H; subst. reflexivity.
+Qed.
+
+Lemma xfer_out_held f n u x f' o : ep_transfer f n PX u x = Ok (f', o) -> FI.valid_id u -> u <> PX ->
+  forall k, hpx f' k = hpx f k - (if k =? n then x else 0).
+Proof.
+  intros H Hu Hne k. destruct (BF.ep_transfer_frame _ _ _ _ _ _ _ H) as (_ & _ & _ & Hh).
+  unfold hpx, held. rewrite Hh. rewrite aget_aset_other by (apply key_other; assumption).
+  destruct (k =? n) eqn:E.
+  - apply Z.eqb_eq in E. subst k. rewrite aget_aset_same. reflexivity.
+  - apply Z.eqb_neq in E. rewrite aget_aset_other by (apply pxkey_ne; congruence). lia.
+Qed.
+
+Lemma xfer_in_held f n u x f' o : ep_transfer f n u PX x = Ok (f', o) -> FI.valid_id u -> u <> PX ->
+  forall k, hpx f' k = hpx f k + (if k =? n then x else 0).
+Proof.
+  intros H Hu Hne k. destruct (BF.ep_transfer_frame _ _ _ _ _ _ _ H) as (_ & _ & _ & Hh).
+  unfold hpx, held. rewrite Hh.
+  destruct (k =? n) eqn:E.
+  - apply Z.eqb_eq in E. subst k. rewrite aget_aset_same. rewrite aget_aset_other by (apply key_other; assumption). reflexivity.
+  - apply Z.eqb_neq in E. rewrite aget_aset_other by (apply pxkey_ne; congruence).
+    rewrite aget_aset_other by (apply key_other; assumption). lia.
+Qed.
+
+Lemma xfers_out_held toks : forall f u f1, FB.fseq f (map (FB.xfer PX u) toks) = Ok f1 -> FI.valid_id u -> u <> PX ->
+  forall k, hpx f1 k = hpx f k - ksum k toks.
+Proof.
+  induction toks as [|[n x] t IH]; intros f u f1 H Hu Hne k; simpl in H.
+  - inversion H; subst. simpl. lia.
+  - mon H r H0. destruct r as [f0 o0]. cbn [fst] in H. cbn [FB.xfer fst snd fstep] in H0.
+    rewrite (IH _ _ _ H Hu Hne k), (xfer_out_held _ _ _ _ _ _ H0 Hu Hne k). cbn [ksum]. lia.
+Qed.
+End FH.
+
+Lemma via_user_held lf u toks op back lf' o rc :
+  via_user lf u toks op back = Ok (lf', o, rc) -> FI.valid_id u -> u <> PX -> FH.user_op op ->
+  forall k, FH.hpx (FL.l_f lf') k = FH.hpx (FL.l_f lf) k - ksum k toks + (if back then (if k =? nth 0 o 0 then nth 1 o 0 else 0) else 0).
+Proof.
+  unfold via_user. intros H Hu Hne Hop k.
+  mon H lf1 H1. mon H r Hr. destruct r as [[lf2 o2] rc2].
+  apply BF.lseq_xfers in H1. destruct H1 as (Hq & _).
+  apply BF.lstep_LF in Hr. destruct Hr as (Hf & _).
+  pose proof (FH.fstep_user_frame _ _ _ _ Hf Hop k) as E2. pose proof (FH.xfers_out_held _ _ _ _ Hq Hu Hne k) as E1.
+  destruct back.
+  - mon H r' Hr'. destruct r' as [[lf3 o3] rc3]. cbn [fst] in H. inversion H; subst lf' o rc. clear H.
+    apply BF.lstep_LF in Hr'. destruct Hr' as (Hf' & _). cbn [F.fstep] in Hf'.
+    rewrite (FH.xfer_in_held _ _ _ _ _ _ Hf' Hu Hne k), E2, E1. reflexivity.
+  - inversion H; subst lf' o rc. clear H. rewrite E2, E1. lia.
+Qed.
+
+(** ---- the links *)
+Definition lf_of (cs : cst) (farm : Z) : FL.lfarm := if farm =? 0 then c_f0 cs else c_f1 cs.
+
+(** the LP tokens the proxy's books record = the LP balance the PAIR MODEL holds for the proxy *)
+Definition LinkLP (cs : cst) : Prop := s_lp (c_px cs) = PR.lp_of (c_pair cs) PX.
+(** per farm and farm-token nonce: the farm tokens the proxy's books record = the position the FARM MODEL holds for the proxy *)
+Definition LinkF (cs : cst) : Prop :=
+  forall farm k, farm = 0 \/ farm = 1 -> aget (s_farm (c_px cs)) (fkey k farm) = FH.hpx (FL.l_f (lf_of cs farm)) k.
+
+Definition Links (cs : cst) : Prop := LinkLP cs /\ LinkF cs /\ KF (c_px cs).
+
+Lemma farm_of_ok cs farm lf : farm_of cs farm = Ok lf -> (farm = 0 \/ farm = 1) /\ lf = lf_of cs farm.
+Proof.
+  unfold farm_of, lf_of. destruct (farm =? 0) eqn:E0.
+  - apply Z.eqb_eq in E0. intros H. inversion H. auto.
+  - destruct (farm =? 1) eqn:E1; [|discriminate]. apply Z.eqb_eq in E1. intros H. inversion H. auto.
+Qed.
+
+Lemma df1_at n farm x k farm' : farm = 0 \/ farm = 1 -> farm' = 0 \/ farm' = 1 ->
+  df1 (fkey n farm) x (fkey k farm') = if (n =? k) && (farm =? farm') then x else 0.
+Proof. intros H H'. unfold df1. rewrite fkey_inj by assumption. reflexivity. Qed.
+
+Lemma linkf_update cs cs' farm lf lf' (d : Z -> Z) :
+  farm_of cs farm = Ok lf -> (c_f0 cs', c_f1 cs') = set_farm cs farm lf' ->
+  (forall key, aget (s_farm (c_px cs')) key = aget (s_farm (c_px cs)) key + d key) ->
+  (forall k, FH.hpx (FL.l_f lf') k = FH.hpx (FL.l_f lf) k + d (fkey k farm)) ->
+  (forall k farm', farm' = 0 \/ farm' = 1 -> farm' <> farm -> d (fkey k farm') = 0) ->
+  LinkF cs -> LinkF cs'.
+Proof.
+  intros Hf Hset Hpx Hh Hz L farm' k Hf'. destruct (farm_of_ok _ _ _ Hf) as [Hfk ->].
+  rewrite Hpx, (L farm' k Hf'). unfold set_farm in Hset. unfold lf_of at 2.
+  destruct (Z.eq_dec farm' farm) as [->|Hne].
+  - rewrite <- Hh. destruct (farm =? 0); inversion Hset as [[E0 E1]]; [rewrite E0 | rewrite E1]; reflexivity.
+  - rewrite (Hz k farm' Hf' Hne). unfold lf_of.
+    destruct (farm =? 0) eqn:Ef; inversion Hset as [[E0 E1]]; destruct (farm' =? 0) eqn:Ef'; try (rewrite E0); try (rewrite E1);
+      try lia; apply Z.eqb_eq in Ef; try apply Z.eqb_eq in Ef'; try apply Z.eqb_neq in Ef; try apply Z.eqb_neq in Ef'; exfalso; lia.
+Qed.
+
+Lemma linkf_same cs cs' : s_farm (c_px cs') = s_farm (c_px cs) -> c_f0 cs' = c_f0 cs -> c_f1 cs' = c_f1 cs -> LinkF cs -> LinkF cs'.
+Proof. intros A B C L farm k Hf. unfold lf_of. rewrite A, B, C. apply (L farm k Hf). Qed.
+
+Lemma bk_farm_same s s' d : bk s s' d df0 -> forall key, aget (s_farm s') key = aget (s_farm s) key.
+Proof. intros (_ & F & _) key. rewrite F. unfold df0. lia. Qed.
+
+Lemma linkf_bk0 cs cs' d : bk (c_px cs) (c_px cs') d df0 -> c_f0 cs' = c_f0 cs -> c_f1 cs' = c_f1 cs -> LinkF cs -> LinkF cs'.
+Proof. intros B E0 E1 L farm k Hf. unfold lf_of. rewrite (bk_farm_same _ _ _ B), E0, E1. apply (L farm k Hf). Qed.
+
+Lemma uid_px u : uid u -> FI.valid_id u /\ u <> PX.
+Proof. unfold uid, FI.valid_id. lia. Qed.
+
+Lemma answer_add_pair e po e' : L16.answer_of_addLiquidity e po = Some e' -> fst (fst (v_pair e')) = nth 0 po 0.
+Proof. unfold L16.answer_of_addLiquidity. destruct po as [|a [|b [|c [|z t]]]]; try discriminate. intros H. inversion H. reflexivity. Qed.
+
+Lemma answer_exit_farm_field e rk fo e' : L16.answer_of_exitFarm e rk fo = Some e' -> snd (v_farm e') = nth 0 fo 0.
+Proof. unfold L16.answer_of_exitFarm. destruct fo as [|a [|b [|c t]]]; try discriminate. intros H. inversion H. reflexivity. Qed.
+
+Lemma answer_claim_fields e rk fo e' : L16.answer_of_claimRewards e rk fo = Some e' -> v_farm e' = (nth 0 fo 0, nth 1 fo 0).
+Proof. unfold L16.answer_of_claimRewards. destruct fo as [|a [|b [|c [|z t]]]]; try discriminate. intros H. inversion H. reflexivity. Qed.
+
+Lemma answer_fmerge_fields e rk go e' : L16.answer_of_mergeFarmTokens e rk go = Some e' -> v_fmerge e' = (nth 0 go 0, nth 1 go 0).
+Proof. unfold L16.answer_of_mergeFarmTokens. destruct go as [|a [|b [|c [|z t]]]]; try discriminate. intros H. inversion H. reflexivity. Qed.
+
+Lemma lp_exit_flow_row p dst amt out p' b : lp_exit_flow p dst amt out = Ok p' -> b <> LPFARM -> b <> LPBURN ->
+  PR.lp_of p' b = PR.lp_of p b + (if dst =? b then out else 0).
+Proof.
+  unfold lp_exit_flow. intros H H1 H2. mon H p1 Hd. mon H pen Hp. inversion H; subst.
+  rewrite !PL.lp_of_credit, (PL.lp_of_debit _ _ _ _ b Hd).
+  destruct (LPBURN =? b) eqn:E1; [apply Z.eqb_eq in E1; congruence|].
+  destruct (LPFARM =? b) eqn:E2; [apply Z.eqb_eq in E2; congruence|]. destruct (dst =? b); lia.
+Qed.
+
+Lemma lp_enter_flow_row p src amt p' b : lp_enter_flow p src amt = Ok p' -> b <> LPFARM ->
+  PR.lp_of p' b = PR.lp_of p b - (if src =? b then amt else 0).
+Proof.
+  unfold lp_enter_flow. intros H H1. mon H r Hr. destruct r as [[p1 o] e]. inversion H; subst. cbn [fst].
+  rewrite (PL.ep_lp_transfer_row _ _ _ _ _ _ _ b Hr). destruct (LPFARM =? b) eqn:E2; [apply Z.eqb_eq in E2; congruence | lia].
+Qed.
+
+Lemma PX_ne_self : PX <> PR.SELF. Proof. unfold PX, PR.SELF. lia. Qed.
+
+Theorem c_add_liq_links cs u pid p1 p2 extra m1 m2 cs' co : c_add_liq cs u pid p1 p2 extra m1 m2 = Ok (cs', co) ->
+  Links cs -> Links cs'.
+Proof.
+  intros H (L1 & L2 & K). pose proof (c_add_liq_proj _ _ _ _ _ _ _ _ _ _ H) as [Hs _]. cbn [step] in Hs.
+  pose proof (ep_add_liq_bk _ _ _ _ _ _ _ _ _ Hs) as B.
+  unfold c_add_liq in H. chk H. mon H c0 H0. mon H rp Hp. destruct rp as [[pair' po] ef].
+  mon H e1 He1. opt_in He1. cbv zeta in H. mon H re Hre. destruct re as [c1 e]. mon H rx Hx. destruct rx as [px' x].
+  mon H c2 H2. inversion H; subst cs' co; clear H. cbn [co_e co_x c_px] in *.
+  assert (Ev : fst (fst (v_pair e)) = nth 0 po 0).
+  { destruct extra as [|q t].
+    - inversion Hre; subst. eapply answer_add_pair; eauto.
+    - mon Hre parts Hparts. mon Hre rm Hrm. destruct rm as [cm fo]. cbn [fst snd] in Hre. mon Hre e2 He2. opt_in He2.
+      inversion Hre; subst. destruct (add_used_set_fact p1 _ _ _ _ He2) as [_ Ep]. rewrite Ep. eapply answer_add_pair; eauto. }
+  split; [|split].
+  - unfold LinkLP in *. cbn [c_px c_pair]. destruct B as (A & _). rewrite A, L1, Ev. cbn [PR.step] in Hp.
+    rewrite (PL.ep_add_row _ _ _ _ _ _ _ _ _ PX Hp PX_ne_self). rewrite Z.eqb_refl. reflexivity.
+  - eapply linkf_bk0; eauto.
+  - cbn [c_px]. exact (proj2 (proj2 B) K).
+Qed.
+
+Theorem c_remove_liq_links cs u pid p m1 m2 cs' co : c_remove_liq cs u pid p m1 m2 = Ok (cs', co) ->
+  Links cs -> Links cs'.
+Proof.
+  intros H (L1 & L2 & K). pose proof (c_remove_liq_proj _ _ _ _ _ _ _ _ H) as [Hs _]. cbn [step] in Hs.
+  pose proof (ep_remove_liq_bk _ _ _ _ _ _ _ Hs) as B.
+  unfold c_remove_liq in H. mon H rp Hp. destruct rp as [[pair' po] ef]. mon H e He. mon H rx Hx. destruct rx as [px' x].
+  mon H c2 H2. inversion H; subst cs' co; clear H. cbn [co_e co_x c_px] in *.
+  split; [|split].
+  - unfold LinkLP in *. cbn [c_px c_pair]. destruct B as (A & _). rewrite A, L1. cbn [PR.step] in Hp.
+    rewrite (PL.ep_remove_row _ _ _ _ _ _ _ _ PX Hp). rewrite Z.eqb_refl. lia.
+  - eapply linkf_bk0; eauto.
+  - cbn [c_px]. exact (proj2 (proj2 B) K).
+Qed.
+
+Theorem c_nofarm_links cs cs' d : bk (c_px cs) (c_px cs') 0 d -> (forall key, d key = 0) ->
+  c_pair cs' = c_pair cs -> c_f0 cs' = c_f0 cs -> c_f1 cs' = c_f1 cs -> Links cs -> Links cs'.
+Proof.
+  intros (A & F & Kk) Hd Ep E0 E1 (L1 & L2 & K). split; [|split].
+  - unfold LinkLP in *. rewrite A, Ep, L1. lia.
+  - intros farm k Hf. unfold lf_of. rewrite F, Hd, E0, E1. rewrite Z.add_0_r. apply (L2 farm k Hf).
+  - apply Kk. exact K.
+Qed.
+
+Theorem c_merge_wlp_links cs u ps cs' co : c_merge_wlp cs u ps = Ok (cs', co) -> Links cs -> Links cs'.
+Proof.
+  intros H L. pose proof (c_merge_wlp_proj _ _ _ _ _ H) as [Hs _]. cbn [step] in Hs.
+  pose proof (ep_merge_wlp_bk _ _ _ _ _ _ Hs) as B.
+  unfold c_merge_wlp in H. cbv zeta in H. mon H parts Hparts. mon H rm Hrm. destruct rm as [cm mo]. cbn [fst snd] in H.
+  mon H e He. mon H rx Hx. destruct rx as [px' x]. mon H c2 H2. inversion H; subst cs' co; clear H. cbn [co_e co_x c_px] in *.
+  eapply c_nofarm_links; eauto; reflexivity.
+Qed.
+
+Theorem c_inc_lp_links cs u p le cs' co : c_inc_lp cs u p le = Ok (cs', co) -> Links cs -> Links cs'.
+Proof.
+  intros H L. pose proof (c_inc_lp_proj _ _ _ _ _ _ H) as [Hs _]. cbn [step] in Hs.
+  pose proof (ep_inc_lp_bk _ _ _ _ _ _ Hs) as B.
+  unfold c_inc_lp in H. cbv zeta in H. mon H rt Hrt. destruct rt as [s1 [k lp]]. mon H rm Hrm. destruct rm as [cm mo]. cbn [fst snd] in H.
+  mon H e He. mon H rx Hx. destruct rx as [px' x]. mon H c2 H2. inversion H; subst cs' co; clear H. cbn [co_e co_x c_px] in *.
+  eapply c_nofarm_links; eauto; reflexivity.
+Qed.
+
+Theorem c_inc_fm_links cs u p le cs' co : c_inc_fm cs u p le = Ok (cs', co) -> Links cs -> Links cs'.
+Proof.
+  intros H L. pose proof (c_inc_fm_proj _ _ _ _ _ _ H) as [Hs _]. cbn [step] in Hs.
+  pose proof (ep_inc_fm_bk _ _ _ _ _ _ Hs) as B.
+  unfold c_inc_fm in H. cbv zeta in H. mon H rt Hrt. destruct rt as [s1 [w pp]]. mon H kl Hkl. destruct kl as [k lq].
+  mon H rm Hrm. destruct rm as [cm mo]. cbn [fst snd] in H.
+  mon H e He. mon H rx Hx. destruct rx as [px' x]. mon H c2 H2. inversion H; subst cs' co; clear H. cbn [co_e co_x c_px] in *.
+  eapply c_nofarm_links; eauto; reflexivity.
+Qed.
+
+Theorem c_plain_links cs o cs' co : c_plain cs o = Ok (cs', co) ->
+  match o with SetPair _ _ | SetFarm _ _ _ | XferWlp _ _ _ _ | XferWfm _ _ _ _ => True | _ => False end ->
+  Links cs -> Links cs'.
+Proof.
+  intros H Ho L. pose proof (c_plain_proj _ _ _ _ H) as Hs. pose proof (plain_bk _ _ _ _ Hs) as B.
+  unfold c_plain in H. mon H rx Hx. destruct rx as [px' x]. inversion H; subst cs' co; clear H. cbn [c_px] in *.
+  destruct o; try contradiction; eapply c_nofarm_links; eauto; reflexivity.
+Qed.
+
+Lemma user_op_of u (op : F.fop) : FI.valid_id u /\ u <> PX -> farm_accts op = [u] -> FH.user_op op.
+Proof. intros Hu E. unfold FH.user_op. rewrite E. constructor; [exact Hu | constructor]. Qed.
+
+Lemma kf_kind w farm : kf_ok w -> wf_farm w = farm -> (wf_kind w =? 0) = (farm =? 0) /\ (farm = 0 \/ farm = 1).
+Proof. unfold kf_ok. intros [[A B]|[A B]] E; rewrite B; subst farm; rewrite A; split; auto. Qed.
+
+Theorem c_exit_farm_links cs u farm p b cs' co : c_exit_farm cs u farm p b = Ok (cs', co) -> uid u ->
+  Links cs -> Links cs'.
+Proof.
+  intros H Hu (L1 & L2 & K). destruct (uid_px _ Hu) as [Hv Hne].
+  pose proof (c_exit_farm_proj _ _ _ _ _ _ _ H) as [Hs _]. cbn [step] in Hs.
+  destruct (ep_exit_farm_bk _ _ _ _ _ _ _ Hs) as (w & Hw & Efarm & B).
+  unfold c_exit_farm in H. cbv zeta in H. mon H lf Hlf. rewrite Hw in H.
+  mon H rf Hrf. destruct rf as [[lf1 fo] rc]. mon H pair1 Hpair. mon H c1 H1. mon H e He. opt_in He.
+  mon H rx Hx. destruct rx as [px' x]. mon H c2 H2. destruct (set_farm cs farm lf1) as [f0' f1'] eqn:Eset.
+  inversion H; subst cs' co; clear H. cbn [co_e co_x c_px] in *.
+  destruct (kf_kind _ _ (Forall_getn _ _ _ _ K Hw) Efarm) as [Ek Hf].
+  rewrite (answer_exit_farm_field _ _ _ _ He) in B. destruct B as (A & Fm & Kk).
+  match type of Hrf with via_user _ _ _ ?op _ = _ =>
+    assert (Hop : FH.user_op op) by (unfold FH.user_op; cbn [farm_accts]; constructor; [split; assumption | constructor]) end.
+  pose proof (via_user_held _ _ _ _ _ _ _ _ Hrf Hv Hne Hop) as Hh. cbn [ksum] in Hh.
+  split; [|split].
+  - unfold LinkLP in *. cbn [c_px c_pair]. rewrite A, L1, Ek.
+    destruct (farm =? 0) eqn:E0.
+    + apply Z.eqb_eq in E0. rewrite E0 in Hpair. cbn in Hpair. inversion Hpair; subst pair1. lia.
+    + destruct Hf as [Hf|Hf]; [rewrite Hf in E0; discriminate|]. rewrite Hf in Hpair. cbn in Hpair.
+      rewrite (lp_exit_flow_row _ _ _ _ _ PX Hpair) by (unfold PX, LPFARM, LPBURN; lia). rewrite Z.eqb_refl. reflexivity.
+  - eapply (linkf_update cs _ farm lf lf1 (df1 (fkey (wf_f w) farm) (- p_amt p)));
+      [exact Hlf | cbn [c_f0 c_f1]; symmetry; exact Eset | exact Fm | | | exact L2].
+    + intros k. rewrite Hh, df1_at by assumption. rewrite Z.eqb_refl, andb_true_r, (Z.eqb_sym k). destruct (wf_f w =? k); lia.
+    + intros k farm' Hf' Hn. rewrite df1_at by assumption.
+      replace (farm =? farm') with false by (symmetry; apply Z.eqb_neq; congruence). rewrite andb_false_r. reflexivity.
+  - cbn [c_px]. apply Kk. exact K.
+Qed.
+
+Theorem c_claim_links cs u farm p b cs' co : c_claim cs u farm p b = Ok (cs', co) -> uid u ->
+  Links cs -> Links cs'.
+Proof.
+  intros H Hu (L1 & L2 & K). destruct (uid_px _ Hu) as [Hv Hne].
+  pose proof (c_claim_proj _ _ _ _ _ _ _ H) as [Hs _]. cbn [step] in Hs.
+  destruct (ep_claim_bk _ _ _ _ _ _ _ Hs) as (w & Hw & Efarm & B).
+  unfold c_claim in H. cbv zeta in H. mon H lf Hlf. rewrite Hw in H.
+  mon H rf Hrf. destruct rf as [[lf1 fo] rc]. mon H c1 H1. mon H e He. opt_in He.
+  mon H rx Hx. destruct rx as [px' x]. mon H c2 H2. destruct (set_farm cs farm lf1) as [f0' f1'] eqn:Eset.
+  inversion H; subst cs' co; clear H. cbn [co_e co_x c_px] in *.
+  destruct (kf_kind _ _ (Forall_getn _ _ _ _ K Hw) Efarm) as [Ek Hf].
+  rewrite (answer_claim_fields _ _ _ _ He) in B. cbn [fst snd] in B. destruct B as (A & Fm & Kk).
+  match type of Hrf with via_user _ _ _ ?op _ = _ =>
+    assert (Hop : FH.user_op op) by (unfold FH.user_op; cbn [farm_accts]; constructor; [split; assumption | constructor]) end.
+  pose proof (via_user_held _ _ _ _ _ _ _ _ Hrf Hv Hne Hop) as Hh. cbn [ksum] in Hh.
+  split; [|split].
+  - unfold LinkLP in *. cbn [c_px c_pair]. rewrite A, L1. lia.
+  - eapply (linkf_update cs _ farm lf lf1);
+      [exact Hlf | cbn [c_f0 c_f1]; symmetry; exact Eset | exact Fm | | | exact L2].
+    + intros k. rewrite Hh. unfold dfadd. rewrite !df1_at by assumption. rewrite Z.eqb_refl, !andb_true_r.
+      rewrite (Z.eqb_sym k (wf_f w)), (Z.eqb_sym k (nth 0 fo 0)). destruct (wf_f w =? k); destruct (nth 0 fo 0 =? k); lia.
+    + intros k farm' Hf' Hn. unfold dfadd. rewrite !df1_at by assumption.
+      replace (farm =? farm') with false by (symmetry; apply Z.eqb_neq; congruence). rewrite !andb_false_r. reflexivity.
+  - cbn [c_px]. apply Kk. exact K.
+Qed.
+
+Theorem c_merge_wfm_links cs u farm ps bm cs' co : c_merge_wfm cs u farm ps bm = Ok (cs', co) -> uid u ->
+  Links cs -> Links cs'.
+Proof.
+  intros H Hu (L1 & L2 & K). destruct (uid_px _ Hu) as [Hv Hne].
+  pose proof (c_merge_wfm_proj _ _ _ _ _ _ _ H) as [Hs _]. cbn [step] in Hs.
+  destruct (ep_merge_wfm_bk _ _ _ _ _ _ _ Hs) as (s1' & its' & Ht' & B).
+  unfold c_merge_wfm in H. cbv zeta in H. mon H lf Hlf. mon H rt Hrt. destruct rt as [s1 its].
+  rewrite Hrt in Ht'. inversion Ht'; subst s1' its'; clear Ht'.
+  mon H fps Hfps. mon H toks Htoks. mon H rm Hrm. destruct rm as [cm mo]. mon H rg Hrg. destruct rg as [[lf1 go] rcm].
+  cbn [fst snd] in H. mon H c1 H1. mon H e1 He1. mon H e He. opt_in He.
+  mon H rx Hx. destruct rx as [px' x]. mon H c2 H2. destruct (set_farm cs farm lf1) as [f0' f1'] eqn:Eset.
+  inversion H; subst cs' co; clear H. cbn [co_e co_x c_px] in *.
+  destruct (B toks Htoks) as ((A & Fm & Kk) & (ki & Hsame) & Hlen).
+  rewrite (answer_fmerge_fields _ _ _ _ He) in Fm. cbn [fst snd] in Fm.
+  destruct (farm_of_ok _ _ _ Hlf) as [Hf _].
+  match type of Hrg with via_user _ _ _ ?op _ = _ =>
+    assert (Hop : FH.user_op op) by (unfold FH.user_op; cbn [farm_accts]; constructor; [split; assumption | constructor]) end.
+  pose proof (via_user_held _ _ _ _ _ _ _ _ Hrg Hv Hne Hop) as Hh.
+  split; [|split].
+  - unfold LinkLP in *. cbn [c_px c_pair]. rewrite A, L1. lia.
+  - eapply (linkf_update cs _ farm lf lf1);
+      [exact Hlf | cbn [c_f0 c_f1]; symmetry; exact Eset | exact Fm | | | exact L2].
+    + intros k. rewrite Hh. unfold dfadd. rewrite df1_at by assumption.
+      rewrite (ksumf_same _ _ _ _ k farm Hsame Hlen Hf Hf). rewrite Z.eqb_refl, andb_true_r, (Z.eqb_sym k). destruct (nth 0 go 0 =? k); lia.
+    + intros k farm' Hf' Hn. unfold dfadd. rewrite df1_at by assumption.
+      rewrite (ksumf_same _ _ _ _ k farm' Hsame Hlen Hf Hf').
+      replace (farm =? farm') with false by (symmetry; apply Z.eqb_neq; congruence). rewrite andb_false_r. reflexivity.
+  - cbn [c_px]. apply Kk. exact K.
+Qed.
+
+Theorem c_enter_farm_links cs u farm p extra b cs' co : c_enter_farm cs u farm p extra b = Ok (cs', co) -> uid u ->
+  Links cs -> Links cs'.
+Proof.
+  intros H Hu (L1 & L2 & K). destruct (uid_px _ Hu) as [Hv Hne].
+  pose proof (c_enter_farm_proj _ _ _ _ _ _ _ _ H) as [Hs _]. cbn [step] in Hs.
+  destruct (ep_enter_farm_bk _ _ _ _ _ _ _ _ Hs) as (s1' & kind' & minted' & Hpre' & B). cbv zeta in B.
+  unfold c_enter_farm in H. cbv zeta in H. mon H lf Hlf. mon H r0 Hr0. destruct r0 as [[s1 kind] minted].
+  rewrite Hr0 in Hpre'. inversion Hpre'; subst s1' kind' minted'; clear Hpre'.
+  mon H c0 H0. mon H rf Hrf. destruct rf as [[lf1 fo] rc]. mon H pair1 Hpair. mon H c1 H1.
+  mon H re Hre. destruct re as [[lf' c3] e]. mon H rx Hx. destruct rx as [px' x]. mon H c4 H4.
+  destruct (set_farm cs farm lf') as [f0' f1'] eqn:Eset. inversion H; subst cs' co; clear H. cbn [co_e co_x c_px] in *.
+  destruct (farm_of_ok _ _ _ Hlf) as [Hf _].
+  match type of Hrf with via_user _ _ _ ?op _ = _ =>
+    assert (Hop : FH.user_op op) by (unfold FH.user_op; cbn [farm_accts]; constructor; [split; assumption | constructor]) end.
+  pose proof (via_user_held _ _ _ _ _ _ _ _ Hrf Hv Hne Hop) as Hh. cbn [ksum] in Hh.
+  assert (LPok : forall dl, s_lp px' = s_lp (c_px cs) + (if farm =? 1 then - p_amt p else 0) -> dl = 0 ->
+                 s_lp px' = PR.lp_of pair1 PX).
+  { intros dl A _. unfold LinkLP in L1. rewrite A, L1. destruct (farm =? 1).
+    - rewrite (lp_enter_flow_row _ _ _ _ PX Hpair) by (unfold PX, LPFARM; lia). rewrite Z.eqb_refl. lia.
+    - inversion Hpair; subst. lia. }
+  destruct extra as [|q t].
+  - mon Hre e' He. opt_in He. inversion Hre; subst lf' c3 e'; clear Hre.
+    destruct (answer_enter_fields _ _ _ _ He) as (_ & _ & _ & _ & Efarm & _). rewrite Efarm in B. cbn [fst snd] in B.
+    destruct B as (A & Fm & Kk).
+    split; [|split].
+    + unfold LinkLP. cbn [c_px c_pair]. apply (LPok 0 A eq_refl).
+    + eapply (linkf_update cs _ farm lf lf1);
+        [exact Hlf | cbn [c_f0 c_f1]; symmetry; exact Eset | exact Fm | | | exact L2].
+      * intros k. rewrite Hh, df1_at by assumption. rewrite Z.eqb_refl, andb_true_r, (Z.eqb_sym k). destruct (nth 0 fo 0 =? k); lia.
+      * intros k farm' Hf' Hn. rewrite df1_at by assumption.
+        replace (farm =? farm') with false by (symmetry; apply Z.eqb_neq; congruence). rewrite andb_false_r. reflexivity.
+    + cbn [c_px]. apply Kk. exact K.
+  - destruct B as (s2' & its' & Ht' & B).
+    mon Hre rt Hrt. destruct rt as [s2 its]. rewrite Hrt in Ht'. inversion Ht'; subst s2' its'; clear Ht'.
+    mon Hre fps Hfps. mon Hre toks Htoks. mon Hre rm Hrm. destruct rm as [cm mo].
+    mon Hre rg Hrg. destruct rg as [[lf2 go] rcm]. mon Hre c2 H2. cbn [fst snd] in Hre.
+    mon Hre e1 He1. mon Hre e2 He2. opt_in He2. mon Hre e3 He3. opt_in He3. inversion Hre; subst lf' c3 e3; clear Hre.
+    destruct (B toks Htoks) as ((A & Fm & Kk) & Hsame & Hlen).
+    destruct (answer_enter_fields _ _ _ _ He3) as (_ & _ & Efm & _). rewrite Efm, (answer_fmerge_fields _ _ _ _ He2) in Fm.
+    cbn [fst snd] in Fm.
+    match type of Hrg with via_user _ _ _ ?op _ = _ =>
+      assert (Hop2 : FH.user_op op) by (unfold FH.user_op; cbn [farm_accts]; constructor; [split; assumption | constructor]) end.
+    pose proof (via_user_held _ _ _ _ _ _ _ _ Hrg Hv Hne Hop2) as Hh2. cbn [ksum] in Hh2.
+    split; [|split].
+    + unfold LinkLP. cbn [c_px c_pair]. apply (LPok 0 A eq_refl).
+    + eapply (linkf_update cs _ farm lf lf2);
+        [exact Hlf | cbn [c_f0 c_f1]; symmetry; exact Eset | exact Fm | | | exact L2].
+      * intros k. rewrite Hh2, Hh. unfold dfadd. rewrite df1_at by assumption.
+        rewrite (ksumf_same _ _ _ _ k farm Hsame Hlen Hf Hf). rewrite Z.eqb_refl, andb_true_r, (Z.eqb_sym k (nth 0 go 0)).
+        destruct (k =? nth 0 fo 0); destruct (nth 0 go 0 =? k); lia.
+      * intros k farm' Hf' Hn. unfold dfadd. rewrite df1_at by assumption.
+        rewrite (ksumf_same _ _ _ _ k farm' Hsame Hlen Hf Hf').
+        replace (farm =? farm') with false by (symmetry; apply Z.eqb_neq; congruence). rewrite andb_false_r. reflexivity.
+    + cbn [c_px]. apply Kk. exact K.
+Qed.
+
+Lemma not_reserved l a : existsb reserved l = false -> reserved a = true -> ~ In a l.
+Proof.
+  intros H Ha Hin. assert (existsb reserved l = true) by (apply existsb_exists; exists a; auto). congruence.
+Qed.
+
+Lemma reserved_px : reserved PX = true. Proof. reflexivity. Qed.
+
+(** well-formed operations: callers of the proxy's endpoints are user accounts; the accounts of a direct farm
+    operation are account ids of the farm model *)
+Definition cwf (o : cop) : Prop :=
+  cuser o /\ match o with CFarm _ (FL.LF fo) => Forall FI.valid_id (farm_accts fo) | _ => True end.
+
+Theorem c_pair_env_links cs o cs' co : c_pair_env cs o = Ok (cs', co) -> Links cs -> Links cs'.
+Proof.
+  unfold c_pair_env. intros H (L1 & L2 & K). chk H. apply negb_true_iff in C. mon H r Hr. destruct r as [[pair' po] ef].
+  inversion H; subst cs' co; clear H. split; [|split]; cbn [c_px]; auto.
+  - unfold LinkLP in *. cbn [c_px c_pair]. rewrite L1. symmetry.
+    apply (PL.step_row _ _ _ _ _ PX Hr PX_ne_self). apply not_reserved; [exact C | reflexivity].
+Qed.
+
+Theorem c_farm_env_links cs farm o cs' co : c_farm_env cs farm o = Ok (cs', co) ->
+  match o with FL.LF fo => Forall FI.valid_id (farm_accts fo) | _ => True end -> Links cs -> Links cs'.
+Proof.
+  unfold c_farm_env. intros H Hv (L1 & L2 & K). mon H lf Hlf. chk H. mon H r Hr. destruct r as [[lf' fo] rc].
+  mon H pair' Hp. mon H en' He. cbv zeta in H. destruct (set_farm cs farm lf') as [f0' f1'] eqn:Eset.
+  inversion H; subst cs' co; clear H. destruct (farm_of_ok _ _ _ Hlf) as [Hf _].
+  split; [|split]; cbn [c_px]; auto.
+  - (* the LP ledger: nobody but the farm and the caller is touched, and the caller is not the proxy *)
+    unfold LinkLP in *. cbn [c_px c_pair]. rewrite L1. destruct o as [op|c e]; [|inversion Hp; reflexivity].
+    apply andb_prop in C. destruct C as [C _]. apply negb_true_iff in C.
+    destruct op; try (inversion Hp; reflexivity); cbn [farm_accts] in C.
+    + destruct (farm =? 1); [|inversion Hp; reflexivity].
+      rewrite (lp_enter_flow_row _ _ _ _ PX Hp) by (unfold PX, LPFARM; lia).
+      destruct (c =? PX) eqn:E; [apply Z.eqb_eq in E; subst c; cbn in C; discriminate | lia].
+    + destruct (farm =? 1); [|inversion Hp; reflexivity].
+      rewrite (lp_exit_flow_row _ _ _ _ _ PX Hp) by (unfold PX, LPFARM, LPBURN; lia).
+      destruct (c =? PX) eqn:E; [apply Z.eqb_eq in E; subst c; cbn in C; discriminate | lia].
+  - eapply (linkf_update cs _ farm lf lf' df0);
+      [exact Hlf | cbn [c_f0 c_f1]; symmetry; exact Eset | intros key; cbn [c_px]; unfold df0; lia | | intros; reflexivity | exact L2].
+    intros k. unfold df0. rewrite Z.add_0_r. destruct o as [op|c e].
+    + apply andb_prop in C. destruct C as [C _]. apply negb_true_iff in C.
+      destruct (BF.lstep_LF _ _ _ _ _ Hr) as (Hfs & _).
+      apply (FH.fstep_user_frame _ _ _ _ Hfs). unfold FH.user_op. apply Forall_forall. intros a Ha.
+      split; [rewrite Forall_forall in Hv; exact (Hv a Ha)|]. intros ->. exact (not_reserved _ _ C reserved_px Ha).
+    + unfold FL.lstep in Hr. destruct (F.admin c); [|discriminate]. destruct (0 <=? e); [|discriminate]. inversion Hr; subst. reflexivity.
+Qed.
+
+Theorem cstep_links cs o cs' co : cstep cs o = Ok (cs', co) -> cwf o -> Links cs -> Links cs'.
+Proof.
+  intros H (Hu & Hv) L. unfold cuser in Hu.
+  destruct o; cbn [cstep caller_of] in *.
+  - eapply c_add_liq_links; eauto.
+  - eapply c_remove_liq_links; eauto.
+  - eapply c_enter_farm_links; eauto.
+  - eapply c_exit_farm_links; eauto.
+  - eapply c_claim_links; eauto.
+  - eapply c_merge_wlp_links; eauto.
+  - eapply c_merge_wfm_links; eauto.
+  - eapply c_inc_lp_links; eauto.
+  - eapply c_inc_fm_links; eauto.
+  - eapply c_plain_links; eauto; exact I.
+  - eapply c_plain_links; eauto; exact I.
+  - eapply c_plain_links; eauto; exact I.
+  - eapply c_plain_links; eauto; exact I.
+  - eapply c_pair_env_links; eauto.
+  - eapply c_farm_env_links; eauto.
+  - unfold c_energy_env in H. chk H. mon H r Hr. inversion H; subst. exact L.
+  - unfold c_time in H. chk H. mon H r Hr. inversion H; subst. exact L.
+Qed.
+
+(** closed histories of well-formed operations from a state whose books agree *)
+Definition FlowsG (g : ghost) : Prop :=
+  g_mint g - g_burn g = (g_pin g - g_pout g) + (g_fin g - g_fout g) + g_paid g.
+Definition cinit2 (cs0 : cst) : Prop := cinit cs0 /\ Links cs0 /\ FlowsG (c_g cs0).
+Definition chist2 (cs : cst) : Prop := exists cs0 ops, cinit2 cs0 /\ Forall cwf ops /\ cs = crun cs0 ops.
+
+Lemma chist2_chist cs : chist2 cs -> chist cs.
+Proof.
+  intros (cs0 & ops & (Hi & _) & Hw & ->). exists cs0, ops. split; [exact Hi|]. split; [|reflexivity].
+  eapply Forall_impl; [|exact Hw]. intros o [Hu _]. exact Hu.
+Qed.
+
+Theorem chist2_links cs : chist2 cs -> Links cs.
+Proof.
+  intros (cs0 & ops & Hi & Hu & ->). revert Hu. pattern ops. apply rev_ind; clear ops.
+  - intros _. exact (proj1 (proj2 Hi)).
+  - intros o ops IH Hu. apply Forall_app in Hu. destruct Hu as [Hu Ho]. inversion Ho as [|? ? Huo _]; subst.
+    unfold crun. rewrite fold_left_app. cbn [fold_left]. fold (crun cs0 ops). specialize (IH Hu).
+    unfold cstep_total. destruct (cstep (crun cs0 ops) o) as [[cs' co]|] eqn:E; [|exact IH].
+    eapply cstep_links; eauto.
+Qed.
+
+Lemma init_c_cinit2 fee sfee bf dsc opts lock blk epoch : EN.valid_opts opts = true -> 0 <= epoch ->
+  cinit2 (init_c fee sfee bf dsc opts lock blk epoch).
+Proof.
+  intros Hv He. split; [apply init_c_cinit; assumption|]. split; [|reflexivity]. split; [reflexivity|]. split; [|constructor].
+  intros farm k Hf. unfold lf_of, init_c. cbn. destruct (farm =? 0); reflexivity.
+Qed.
+
+(** ================================================================== Part B, flows: the base asset the proxy mints and burns *)
+(** base asset minted - burned by the proxy = net base asset the pair took from it + net base asset the base-asset farm
+    took from it + base asset it paid out (pool surplus): the proxy itself never keeps any *)
+Definition Flows (g : ghost) : Prop := FlowsG g.
+
+Lemma step_no_mint s o s' x : step s o = Ok (s', x) ->
+  match o with
+  | AddLiq _ _ _ _ _ _ | RemoveLiq _ _ _ _ | EnterFarm _ _ _ _ _ | ExitFarm _ _ _ _ => True
+  | _ => x_mint x = 0 /\ x_burn x = 0
+  end.
+Proof.
+  intros H. destruct o; cbn [step] in *; try exact I.
+  - unfold ep_claim in H. chk H. chk H. mon H r Hr. destruct r as [s1 [w pp]]. chk H. chk H.
+    destruct (v_farm e) as [f F]. destruct (v_rew e) as [rk ra]. destruct (mint_wfm _ _ _ _ _ _ _ _) as [s2 m].
+    inversion H; subst. split; reflexivity.
+  - unfold ep_merge_wlp in H. chk H. mon H r Hr. destruct r as [s1 [ta tl]]. chk H. destruct (v_fact e) as [kf lf].
+    destruct (mint_wlp_user _ _ _ _ _) as [s2 n]. inversion H; subst. split; reflexivity.
+  - unfold ep_merge_wfm in H. chk H. chk H. mon H r Hr. destruct r as [s1 its].
+    mon H r2 Hr2. destruct r2 as [s2 [[m amt] law]]. destruct (v_rew e) as [rk ra]. inversion H; subst. split; reflexivity.
+  - unfold ep_inc_lp in H. chk H. mon H r Hr. destruct r as [s1 [k lp]]. chk H. destruct (v_fact e) as [kf lf].
+    destruct (mint_wlp_user _ _ _ _ _) as [s2 n]. inversion H; subst. split; reflexivity.
+  - unfold ep_inc_fm in H. chk H. mon H r Hr. destruct r as [s1 [w pp]]. destruct (v_fact e) as [kf lf].
+    destruct (wf_kind w =? 0).
+    + chk H. destruct (mint_wfm _ _ _ _ _ _ _ _) as [s2 m]. inversion H; subst. split; reflexivity.
+    + mon H r2 Hr2. destruct r2 as [s2 [k lq]]. chk H. destruct (mint_wlp _ _ _ _) as [s3 n].
+      destruct (mint_wfm _ _ _ _ _ _ _ _) as [s4 m]. inversion H; subst. split; reflexivity.
+  - chk H. chk H. inversion H; subst. split; reflexivity.
+  - chk H. chk H. chk H. inversion H; subst. split; reflexivity.
+  - unfold ep_xfer_wlp in H. chk H. mon H h Hh. inversion H; subst. split; reflexivity.
+  - unfold ep_xfer_wfm in H. chk H. mon H h Hh. inversion H; subst. split; reflexivity.
+Qed.
+
+Lemma flows_upd g car x pin pout fin fout fpen paid : Flows g ->
+  x_mint x - x_burn x = pin - pout + fin - fout + paid -> Flows (upd_g g car x pin pout fin fout fpen paid).
+Proof. unfold Flows, FlowsG, upd_g. cbn. intros. lia. Qed.
+
+Lemma base_paid_remove lp rb k ro :
+  base_paid ((if lp <? rb then [(TK_BASE, 0, rb - lp)] else []) ++ [(TK_LOCKED, k, Z.min rb lp)] ++ [(TK_OTHER, 0, ro)]) =
+  if lp <? rb then rb - lp else 0.
+Proof. destruct (lp <? rb); cbn; lia. Qed.
+
+Theorem cstep_flows cs o cs' co : cstep cs o = Ok (cs', co) -> Backed (c_px cs) -> Flows (c_g cs) -> Flows (c_g cs').
+Proof.
+  intros H Hb Fl. pose proof (cstep_proj _ _ _ _ H) as P.
+  destruct o; cbn [cstep pop_of] in *; try (match type of P with _ /\ _ => destruct P as [Hs _] end).
+  - (* add *) unfold c_add_liq in H. chk H. mon H c0 H0. mon H rp Hp. destruct rp as [[pair' po] ef].
+    mon H e1 He1. opt_in He1. cbv zeta in H. mon H re Hre. destruct re as [c1 e]. mon H rx Hx. destruct rx as [px' x].
+    mon H c2 H2. inversion H; subst cs' co; clear H. cbn [co_e co_x c_g] in *. apply flows_upd; [exact Fl|].
+    cbn [step] in Hs. destruct (add_liq_mint_any _ _ _ _ _ _ _ _ _ Hs) as (_ & A & B & _). cbv zeta in A, B. rewrite A, B.
+    assert (Eu : L16.add_used_locked p1 e1 = L16.add_used_locked p1 e).
+    { destruct extra; [inversion Hre; reflexivity|]. mon Hre parts Hparts. mon Hre rm Hrm. destruct rm as [cm fo]. cbn [fst snd] in Hre.
+      mon Hre e2 He2. opt_in He2. inversion Hre; subst. symmetry. exact (proj1 (add_used_set_fact p1 _ _ _ _ He2)). }
+    rewrite Eu. unfold L16.add_used_locked. lia.
+  - (* remove *) unfold c_remove_liq in H. mon H rp Hp. destruct rp as [[pair' po] ef]. mon H e He.
+    mon H rx Hx. destruct rx as [px' x]. mon H c2 H2. inversion H; subst cs' co; clear H. cbn [co_e co_x c_g] in *.
+    apply flows_upd; [exact Fl|]. cbn [step] in Hs.
+    destruct (remove_liq_char _ _ _ _ _ _ _ Hs Hb) as (w & lp & _ & _ & R). cbv zeta in R. destruct R as (Eo & Em & Eb & _).
+    rewrite Eo, Em, Eb, base_paid_remove. destruct (lp <? snd (fst (v_pair e))) eqn:E; [apply Z.ltb_lt in E | apply Z.ltb_ge in E]; lia.
+  - (* enter *) unfold c_enter_farm in H. cbv zeta in H. mon H lf Hlf. mon H r0 Hr0. destruct r0 as [[s1 kind] minted].
+    mon H c0 H0. mon H rf Hrf. destruct rf as [[lf1 fo] rc]. mon H pair1 Hpair. mon H c1 H1.
+    mon H re Hre. destruct re as [[lf' c3] e]. mon H rx Hx. destruct rx as [px' x]. mon H c4 H4.
+    destruct (set_farm cs farm lf') as [f0' f1']. inversion H; subst cs' co; clear H. cbn [co_e co_x c_g] in *.
+    apply flows_upd; [exact Fl|]. cbn [step] in Hs.
+    destruct (enter_farm_mint_any _ _ _ _ _ _ _ _ Hs) as (A & B & _). rewrite A, B.
+    assert (minted = if p_tok p =? TK_LOCKED then p_amt p else 0); [|lia].
+    unfold enter_pre in Hr0. cbv zeta in Hr0. destruct (p_tok p =? TK_LOCKED).
+    + chk Hr0. inversion Hr0. reflexivity.
+    + destruct (p_tok p =? TK_WLP); [|discriminate]. destruct (getn _ _); [|discriminate].
+      mon Hr0 h Hh. mon Hr0 z Hz. mon Hr0 lp Hlp. chk Hr0. inversion Hr0. reflexivity.
+  - (* exit *) unfold c_exit_farm in H. cbv zeta in H. mon H lf Hlf.
+    destruct (getn (s_wfm (c_px cs)) (p_non p)) as [w|] eqn:Hw; [|discriminate].
+    mon H rf Hrf. destruct rf as [[lf1 fo] rc]. mon H pair1 Hpair. mon H c1 H1. mon H e He. opt_in He.
+    mon H rx Hx. destruct rx as [px' x]. mon H c2 H2. destruct (set_farm cs farm lf1) as [f0' f1'].
+    inversion H; subst cs' co; clear H. cbn [co_e co_x c_g] in *. apply flows_upd; [exact Fl|]. cbn [step] in Hs.
+    destruct (exit_farm_char _ _ _ _ _ _ _ Hs Hb) as (w' & _ & _ & _ & R). cbv zeta in R. destruct R as (_ & _ & Em & Eb & _).
+    rewrite Em, Eb, (answer_exit_farm_field _ _ _ _ He). destruct (farm =? 0); lia.
+  - unfold c_claim in H. cbv zeta in H. mon H lf Hlf. destruct (getn _ _) as [w|]; [|discriminate].
+    mon H rf Hrf. destruct rf as [[lf1 fo] rc]. mon H c1 H1. mon H e He. mon H rx Hx. destruct rx as [px' x]. mon H c2 H2.
+    destruct (set_farm cs farm lf1) as [f0' f1']. inversion H; subst cs' co; clear H. cbn [co_e co_x c_g] in *.
+    apply flows_upd; [exact Fl|]. destruct (step_no_mint _ _ _ _ Hs) as [A B]. rewrite A, B. lia.
+  - unfold c_merge_wlp in H. cbv zeta in H. mon H parts Hparts. mon H rm Hrm. destruct rm as [cm mo]. cbn [fst snd] in H.
+    mon H e He. mon H rx Hx. destruct rx as [px' x]. mon H c2 H2. inversion H; subst cs' co; clear H. cbn [co_e co_x c_g] in *.
+    apply flows_upd; [exact Fl|]. destruct (step_no_mint _ _ _ _ Hs) as [A B]. rewrite A, B. lia.
+  - unfold c_merge_wfm in H. cbv zeta in H. mon H lf Hlf. mon H rt Hrt. destruct rt as [s1 its].
+    mon H fps Hfps. mon H toks Htoks. mon H rm Hrm. destruct rm as [cm mo]. mon H rg Hrg. destruct rg as [[lf1 go] rcm].
+    cbn [fst snd] in H. mon H c1 H1. mon H e1 He1. mon H e He. mon H rx Hx. destruct rx as [px' x]. mon H c2 H2.
+    destruct (set_farm cs farm lf1) as [f0' f1']. inversion H; subst cs' co; clear H. cbn [co_e co_x c_g] in *.
+    apply flows_upd; [exact Fl|]. destruct (step_no_mint _ _ _ _ Hs) as [A B]. rewrite A, B. lia.
+  - unfold c_inc_lp in H. cbv zeta in H. mon H rt Hrt. destruct rt as [s1 [k lp]]. mon H rm Hrm. destruct rm as [cm mo]. cbn [fst snd] in H.
+    mon H e He. mon H rx Hx. destruct rx as [px' x]. mon H c2 H2. inversion H; subst cs' co; clear H. cbn [co_e co_x c_g] in *.
+    apply flows_upd; [exact Fl|]. destruct (step_no_mint _ _ _ _ Hs) as [A B]. rewrite A, B. lia.
+  - unfold c_inc_fm in H. cbv zeta in H. mon H rt Hrt. destruct rt as [s1 [w pp]]. mon H kl Hkl. destruct kl as [k lq].
+    mon H rm Hrm. destruct rm as [cm mo]. cbn [fst snd] in H.
+    mon H e He. mon H rx Hx. destruct rx as [px' x]. mon H c2 H2. inversion H; subst cs' co; clear H. cbn [co_e co_x c_g] in *.
+    apply flows_upd; [exact Fl|]. destruct (step_no_mint _ _ _ _ Hs) as [A B]. rewrite A, B. lia.
+  - unfold c_plain in H. mon H rx Hx. destruct rx. inversion H; subst. exact Fl.
+  - unfold c_plain in H. mon H rx Hx. destruct rx. inversion H; subst. exact Fl.
+  - unfold c_plain in H. mon H rx Hx. destruct rx. inversion H; subst. exact Fl.
+  - unfold c_plain in H. mon H rx Hx. destruct rx. inversion H; subst. exact Fl.
+  - unfold c_pair_env in H. chk H. mon H r Hr. destruct r as [[pair' po] ef]. inversion H; subst. exact Fl.
+  - unfold c_farm_env in H. mon H lf Hlf. chk H. mon H r Hr. destruct r as [[lf' fo] rc]. mon H pair' Hp. mon H en' He.
+    cbv zeta in H. destruct (set_farm cs farm lf') as [f0' f1']. inversion H; subst. exact Fl.
+  - unfold c_energy_env in H. chk H. mon H r Hr. inversion H; subst. exact Fl.
+  - unfold c_time in H. chk H. mon H r Hr. inversion H; subst. exact Fl.
+Qed.
+
+
+Theorem chist2_flows cs : chist2 cs -> Flows (c_g cs).
+Proof.
+  intros (cs0 & ops & Hi & Hu & ->). revert Hu. pattern ops. apply rev_ind; clear ops.
+  - intros _. exact (proj2 (proj2 Hi)).
+  - intros o ops IH Hu. apply Forall_app in Hu. destruct Hu as [Hu Ho].
+    unfold crun. rewrite fold_left_app. cbn [fold_left]. fold (crun cs0 ops). specialize (IH Hu).
+    unfold cstep_total. destruct (cstep (crun cs0 ops) o) as [[cs' co]|] eqn:E; [|exact IH].
+    eapply cstep_flows; eauto. apply creach_backed. exists cs0, ops. split; [exact (proj1 (proj1 Hi)) | reflexivity].
+Qed.
+
+(** ================================================================== Part B, supply: round trips including the callees *)
+(** the change of the global base-asset and locked-token supplies in a closed step ([co_db], [co_dl]) counts what the
+    proxy mints and burns AND what the callee models burn (the base-asset farm burns the exit penalty it keeps) and
+    mint (locked rewards) *)
+Theorem closed_pool_round_trip cs u pid p1 p2 m1 m2 cs1 co1 cs2 m1' m2' cs3 co3 :
+  Backed (c_px cs) -> c_add_liq cs u pid p1 p2 [] m1 m2 = Ok (cs1, co1) -> c_px cs2 = c_px cs1 ->
+  c_remove_liq cs2 u pid (TK_WLP, next_nonce (s_wlp (c_px cs)), fst (fst (v_pair (co_e co1)))) m1' m2' = Ok (cs3, co3) ->
+  co_dl co1 = 0 /\ co_db co1 = L16.add_used_locked p1 (co_e co1) /\
+  (co_db co1 + co_dl co1) + (co_db co3 + co_dl co3) = 0.
+Proof.
+  intros Hb Ha Epx Hr.
+  destruct (c_add_liq_proj _ _ _ _ _ _ _ _ _ _ Ha) as [S1 L1]. destruct (c_remove_liq_proj _ _ _ _ _ _ _ _ Hr) as [S3 _].
+  rewrite Epx in S3. cbn [step] in S1, S3.
+  pose proof (add_remove_round_trip _ _ _ _ _ _ _ _ _ _ _ Hb S1 L1 S3) as RT.
+  destruct (add_liq_mint_any _ _ _ _ _ _ _ _ _ S1) as (_ & A & B & _ & C & _). cbv zeta in A, B.
+  assert (Hb1 : Backed (c_px cs1)) by (eapply ep_add_liq_backed; eauto).
+  destruct (remove_liq_char _ _ _ _ _ _ _ S3 Hb1) as (w & lp & _ & _ & R). cbv zeta in R. destruct R as (_ & Em & _).
+  assert (D1 : co_db co1 = x_mint (co_x co1) - x_burn (co_x co1) /\ co_dl co1 = - snd (x_lburn (co_x co1))).
+  { unfold c_add_liq in Ha. chk Ha. mon Ha c0 H0. mon Ha rp Hp. destruct rp as [[pair' po] ef].
+    mon Ha e1 He1. cbv zeta in Ha. mon Ha re Hre. destruct re as [c1 e]. mon Ha rx Hx. destruct rx as [px' x].
+    mon Ha c2 H2. inversion Ha; subst. split; reflexivity. }
+  assert (D3 : co_db co3 = x_mint (co_x co3) - x_burn (co_x co3) /\ co_dl co3 = - snd (x_lburn (co_x co3))).
+  { unfold c_remove_liq in Hr. mon Hr rp Hp. destruct rp as [[pair' po] ef]. mon Hr e He.
+    mon Hr rx Hx. destruct rx as [px' x]. mon Hr c2 H2. inversion Hr; subst. split; reflexivity. }
+  destruct D1 as [D1 D1']. destruct D3 as [D3 D3']. rewrite D1, D1', D3, D3', C, Em, A, B. cbn [snd].
+  unfold L16.add_used_locked. repeat split; try lia.
+Qed.
+
+(** enterFarmProxy with locked tokens, then exitFarmProxy of the whole position: the base asset minted on entry is
+    burned in full - part by the proxy (what the farm returned), part by the FARM MODEL (the penalty it kept, counted
+    in [co_db] of the exit); the proxy burns the penalty once more in locked tokens, so the caller gets back
+    a - penalty locked tokens and the global base supply is where it was *)
+Theorem closed_farm_round_trip cs u p b1 cs1 co1 cs2 b2 cs3 co3 :
+  Backed (c_px cs) -> p_tok p = TK_LOCKED -> c_enter_farm cs u 0 p [] b1 = Ok (cs1, co1) -> c_px cs2 = c_px cs1 ->
+  c_exit_farm cs2 u 0 (TK_WFM, next_nonce (s_wfm (c_px cs)), p_amt p) b2 = Ok (cs3, co3) ->
+  let pen := snd (x_lburn (co_x co3)) in
+  co_db co1 = p_amt p /\ co_db co3 = - p_amt p /\ co_db co1 + co_db co3 = 0 /\
+  x_burn (co_x co3) = p_amt p - pen /\                       (* burned by the proxy; the farm model burned [pen] *)
+  co_db co3 = - (x_burn (co_x co3) + pen) /\
+  (exists rew, x_outs (co_x co3) = [(TK_LOCKED, p_non p, p_amt p - pen); rew]).
+Proof.
+  intros Hb Hp Ha Epx Hr.
+  destruct (c_enter_farm_proj _ _ _ _ _ _ _ _ Ha) as [S1 L1]. destruct (c_exit_farm_proj _ _ _ _ _ _ _ Hr) as [S3 _].
+  rewrite Epx in S3. cbn [step] in S1, S3.
+  destruct (enter_exit_round_trip _ _ _ _ _ _ _ _ _ Hb Hp S1 L1 S3) as (RT & Hout).
+  destruct (enter_farm_mint_any _ _ _ _ _ _ _ _ S1) as (A & B & C & _). rewrite Hp in A. cbn in A.
+  assert (Hb1 : Backed (c_px cs1)) by (eapply ep_enter_farm_backed; eauto).
+  destruct (exit_farm_char _ _ _ _ _ _ _ S3 Hb1) as (w & _ & _ & _ & R). cbv zeta in R. destruct R as (_ & _ & Em & Eb & _).
+  cbn [Z.eqb] in Eb.
+  assert (D1 : co_db co1 = x_mint (co_x co1) - x_burn (co_x co1)).
+  { unfold c_enter_farm in Ha. cbv zeta in Ha. mon Ha lf Hlf. mon Ha r0 Hr0. destruct r0 as [[s1 kind] minted].
+    mon Ha c0 H0. mon Ha rf Hrf. destruct rf as [[lf1 fo] rc]. mon Ha pair1 Hpair. mon Ha c1 H1.
+    mon Ha re Hre. destruct re as [[lf' c3] e]. mon Ha rx Hx. destruct rx as [px' x]. mon Ha c4 H4.
+    destruct (set_farm cs 0 lf') as [f0' f1']. inversion Ha; subst. reflexivity. }
+  assert (D3 : co_db co3 = x_mint (co_x co3) - x_burn (co_x co3) - (p_amt p - snd (v_farm (co_e co3)))).
+  { unfold c_exit_farm in Hr. cbv zeta in Hr. mon Hr lf2 Hlf2.
+    destruct (getn (s_wfm (c_px cs2)) _) as [w2|] eqn:Hw2; [|discriminate].
+    mon Hr rf2 Hrf2. destruct rf2 as [[lf3 fo3] rc3]. mon Hr pair3 Hpair3. mon Hr c5 H5. mon Hr e3 He3. opt_in He3.
+    mon Hr rx3 Hx3. destruct rx3 as [px3 x3]. mon Hr c6 H6. destruct (set_farm cs2 0 lf3) as [f0'' f1''].
+    inversion Hr; subst. cbn [co_db co_x co_e Z.eqb p_amt snd]. rewrite (answer_exit_farm_field _ _ _ _ He3). reflexivity. }
+  cbv zeta. rewrite D1, D3, A, B, Em, Eb. repeat split; try lia. exact Hout.
+Qed.
+
+(** ---- the pool keeps what the proxy does not get back *)
+Module PB.
+Import MX.Model.Pair.
+
+Lemma ep_add_bal p c a1 a2 m1 m2 p' o e : ep_add p c a1 a2 m1 m2 = Ok (p', o, e) ->
+  p_bal1 p' = p_bal1 p + nth 1 o 0 /\ p_bal2 p' = p_bal2 p + nth 2 o 0.
+Proof.
+  unfold ep_add. intros H. destruct (_ && _); [|discriminate]. destruct (_ && _); [|discriminate].
+  destruct (is_state_active _); [|discriminate]. destruct (match p_adder p with Some _ => _ | None => _ end); [|discriminate].
+  apply bind_ok in H. destruct H as ([o1 o2] & _ & H). apply bind_ok in H. destruct H as ([p1 liq] & Hl & H).
+  destruct (k_check p p1); [|discriminate]. inversion H; subst p' o e; clear H. cbn [nth].
+  assert (E : p_bal1 p1 = p_bal1 p /\ p_bal2 p1 = p_bal2 p).
+  { destruct (p_S p =? 0).
+    - destruct (_ <? _); [|discriminate]. inversion Hl; subst. split; reflexivity.
+    - apply bind_ok in Hl. destruct Hl as (l1 & _ & Hl). apply bind_ok in Hl. destruct Hl as (l2 & _ & Hl).
+      destruct (0 <? _); [|discriminate]. inversion Hl; subst. split; reflexivity. }
+  destruct E as [E1 E2]. unfold lp_credit, set_lp, add_bal. cbn. rewrite E1, E2. split; reflexivity.
+Qed.
+
+Lemma sub_bal_bals p t a p' : sub_bal p t a = Ok p' ->
+  p_bal1 p' = p_bal1 p - (if t =? T1 then a else 0) /\ p_bal2 p' = p_bal2 p - (if t =? T1 then 0 else a).
+Proof.
+  unfold sub_bal, bal. intros H. apply bind_ok in H. destruct H as (b & Hb & H). apply sub_chk_ok in Hb. destruct Hb as [_ ->].
+  inversion H; subst. destruct (t =? T1); cbn; split; lia.
+Qed.
+
+Lemma pool_remove_bals p lp m1 m2 p' x1 x2 : pool_remove p lp m1 m2 = Ok (p', x1, x2) -> p_bal1 p' = p_bal1 p /\ p_bal2 p' = p_bal2 p.
+Proof.
+  unfold pool_remove. intros H. destruct (_ <=? _); [|discriminate].
+  apply bind_ok in H. destruct H as (y1 & _ & H). destruct (0 <? y1); [|discriminate]. destruct (m1 <=? y1); [|discriminate].
+  destruct (y1 <? _); [|discriminate].
+  apply bind_ok in H. destruct H as (y2 & _ & H). destruct (0 <? y2); [|discriminate]. destruct (m2 <=? y2); [|discriminate].
+  destruct (y2 <? _); [|discriminate].
+  apply bind_ok in H. destruct H as (s' & _ & H). apply bind_ok in H. destruct H as (r1 & _ & H).
+  apply bind_ok in H. destruct H as (r2 & _ & H). inversion H; subst. split; reflexivity.
+Qed.
+
+Lemma ep_remove_bal p c lp m1 m2 p' o e : ep_remove p c lp m1 m2 = Ok (p', o, e) ->
+  p_bal1 p' = p_bal1 p - nth 0 o 0 /\ p_bal2 p' = p_bal2 p - nth 1 o 0.
+Proof.
+  unfold ep_remove. intros H. destruct (_ && _); [|discriminate]. destruct (is_state_active _); [|discriminate].
+  destruct (0 <? lp); [|discriminate].
+  apply bind_ok in H. destruct H as (p0 & H0 & H). apply bind_ok in H. destruct H as ([[p1 x1] x2] & H1 & H).
+  destruct (_ <=? _); [|discriminate].
+  apply bind_ok in H. destruct H as (p2 & H2 & H). apply bind_ok in H. destruct H as (p3 & H3 & H). inversion H; subst p' o e; clear H.
+  cbn [nth]. destruct (sub_bal_bals _ _ _ _ H3) as [A3 B3]. destruct (sub_bal_bals _ _ _ _ H2) as [A2 B2].
+  destruct (pool_remove_bals _ _ _ _ _ _ _ H1) as [A1 B1].
+  assert (E0 : p_bal1 p0 = p_bal1 p /\ p_bal2 p0 = p_bal2 p).
+  { unfold lp_debit in H0. destruct (negb _); [|discriminate]. apply bind_ok in H0. destruct H0 as (b & _ & H0). inversion H0. split; reflexivity. }
+  destruct E0 as [A0 B0]. cbn in A3, B3, A2, B2. rewrite A3, B3, A2, B2, A1, B1, A0, B0. split; lia.
+Qed.
+End PB.
+
+(** the pair model's balance of the base asset *)
+Definition pool_base (cs : cst) : Z := if c_bf cs then PR.p_bal1 (c_pair cs) else PR.p_bal2 (c_pair cs).
+
+Theorem closed_add_pool cs u pid p1 p2 extra m1 m2 cs' co : c_add_liq cs u pid p1 p2 extra m1 m2 = Ok (cs', co) ->
+  pool_base cs' = pool_base cs + L16.add_used_locked p1 (co_e co) /\ c_bf cs' = c_bf cs.
+Proof.
+  intros H. pose proof (c_add_liq_proj _ _ _ _ _ _ _ _ _ _ H) as [Hs _]. cbn [step] in Hs.
+  unfold c_add_liq in H. chk H. mon H c0 H0. mon H rp Hp. destruct rp as [[pair' po] ef].
+  mon H e1 He1. opt_in He1. cbv zeta in H. mon H re Hre. destruct re as [c1 e]. mon H rx Hx. destruct rx as [px' x].
+  mon H c2 H2. inversion H; subst cs' co; clear H. cbn [co_e co_x] in *. split; [|reflexivity].
+  assert (Ev : v_pair e = v_pair e1).
+  { destruct extra as [|q t]; [inversion Hre; reflexivity|].
+    mon Hre parts Hparts. mon Hre rm Hrm. destruct rm as [cm fo]. cbn [fst snd] in Hre. mon Hre e2 He2. opt_in He2.
+    inversion Hre; subst. exact (proj2 (add_used_set_fact p1 _ _ _ _ He2)). }
+  cbn [PR.step] in Hp. destruct (PB.ep_add_bal _ _ _ _ _ _ _ _ _ Hp) as [B1 B2].
+  unfold L16.answer_of_addLiquidity in He1. destruct po as [|liq [|o1 [|o2 [|z t]]]]; try discriminate. inversion He1; subst e1. clear He1.
+  unfold pool_base, L16.add_used_locked. cbn [c_bf c_pair]. rewrite Ev. cbn [L16.set_v_pair v_pair fst snd nth] in *.
+  (* the locked payment is the one on the base-asset side of the pool *)
+  destruct (add_liq_mint_any _ _ _ _ _ _ _ _ _ Hs) as (Hl & _). cbv zeta in Hl.
+  unfold pool_order, und in C. destruct (c_bf cs).
+  - rewrite B1. destruct (p_tok p1 =? TK_LOCKED) eqn:E1; [reflexivity|].
+    apply andb_prop in C. destruct C as [C1 C2]. rewrite Hl in C2. cbn in C2. discriminate.
+  - rewrite B2. destruct (p_tok p1 =? TK_LOCKED) eqn:E1; [|reflexivity].
+    apply andb_prop in C. destruct C as [C1 C2]. cbn in C1. discriminate.
+Qed.
+
+Theorem closed_remove_pool cs u pid p m1 m2 cs' co : c_remove_liq cs u pid p m1 m2 = Ok (cs', co) ->
+  pool_base cs' = pool_base cs - snd (fst (v_pair (co_e co))) /\ c_bf cs' = c_bf cs.
+Proof.
+  intros H. unfold c_remove_liq in H. mon H rp Hp. destruct rp as [[pair' po] ef]. mon H e He. opt_in He.
+  mon H rx Hx. destruct rx as [px' x]. mon H c2 H2. inversion H; subst cs' co; clear H. cbn [co_e]. split; [|reflexivity].
+  cbn [PR.step] in Hp. destruct (PB.ep_remove_bal _ _ _ _ _ _ _ _ Hp) as [B1 B2].
+  unfold L16.answer_of_removeLiquidity in He. destruct po as [|x1 [|x2 [|z t]]]; try discriminate. inversion He; subst e. clear He.
+  unfold pool_base. cbn [c_bf c_pair nth] in *. destruct (c_bf cs); cbn [L16.set_v_pair v_pair fst snd]; lia.
+Qed.
+
+(** ================================================================== the C16 theorems on closed steps: no law hypothesis *)
+Theorem closed_backed_step cs o cs' co : cstep cs o = Ok (cs', co) -> Backed (c_px cs) -> Backed (c_px cs').
+Proof.
+  intros H Hb. pose proof (cstep_proj _ _ _ _ H) as P. destruct (pop_of o (co_e co)) as [po|].
+  - destruct P as [Hs Hl]. eapply step_backed; eauto.
+  - rewrite P. exact Hb.
+Qed.
+
+Theorem closed_locked_remove cs u pid p m1 m2 cs' co : creach cs -> cstep cs (CRemoveLiq u pid p m1 m2) = Ok (cs', co) ->
+  let s := c_px cs in let e := co_e co in let x := co_x co in
+  exists w lp, getn (s_wlp s) (p_non p) = Some w /\ part_wlp w (p_amt p) = Ok lp /\
+    let rb := snd (fst (v_pair e)) in let ro := snd (v_pair e) in
+    let burned := Z.max 0 (lp - rb) in
+    x_outs x = (if lp <? rb then [(TK_BASE, 0, rb - lp)] else []) ++
+               [(TK_LOCKED, wl_k w, Z.min rb lp)] ++ [(TK_OTHER, 0, ro)] /\
+    x_mint x = 0 /\ x_burn x = Z.min rb lp /\ x_lburn x = (if lp <? rb then (0, 0) else (wl_k w, burned)) /\
+    x_burn x + snd (x_lburn x) = lp /\
+    burn_energy e burned = Ok (x_energy x).
+Proof.
+  intros R H. destruct (cstep_proj _ _ _ _ H) as [Hs _]. exact (remove_liq_char _ _ _ _ _ _ _ Hs (creach_backed _ R)).
+Qed.
+
+Theorem closed_locked_exit cs u farm p b cs' co : creach cs -> cstep cs (CExitFarm u farm p b) = Ok (cs', co) ->
+  let s := c_px cs in let e := co_e co in let x := co_x co in
+  exists w, getn (s_wfm s) (p_non p) = Some w /\ wf_farm w = farm /\ wf_P w = wf_T w /\
+    let a := p_amt p in let F := snd (v_farm e) in let pen := a - F in
+    0 < a /\ F <= a /\ x_mint x = 0 /\ x_burn x = (if farm =? 0 then F else 0) /\
+    (exists out, x_outs x = [out; (TK_LOCKED, fst (v_rew e), snd (v_rew e))] /\ p_amt out = a - pen /\
+       ((wf_kind w = 0 /\ out = (TK_LOCKED, wf_pn w, a - pen)) \/ (wf_kind w <> 0 /\ p_tok out = TK_WLP /\ (pen = 0 -> p_non out = wf_pn w)))) /\
+    (wf_kind w = 0 -> snd (x_lburn x) = pen /\ (pen <> 0 -> fst (x_lburn x) = wf_pn w) /\ burn_energy e pen = Ok (x_energy x)) /\
+    (wf_kind w <> 0 -> pen = 0 -> x_lburn x = (0, 0) /\ x_energy x = None) /\
+    (wf_kind w <> 0 -> pen <> 0 -> exists wl lold lnew,
+        getn (s_wlp s) (wf_pn w) = Some wl /\ part_wlp wl a = Ok lold /\ part_wlp wl (a - pen) = Ok lnew /\
+        x_lburn x = (wl_k wl, lold - lnew) /\ lnew <= lold /\ burn_energy e (lold - lnew) = Ok (x_energy x)).
+Proof.
+  intros R H. destruct (cstep_proj _ _ _ _ H) as [Hs _]. exact (exit_farm_char _ _ _ _ _ _ _ Hs (creach_backed _ R)).
+Qed.
+
+(** no closed operation pays base asset except removeLiquidityProxy's pool surplus above the locked part *)
+Theorem closed_base_only_surplus cs o cs' co pay : cstep cs o = Ok (cs', co) -> In pay (x_outs (co_x co)) -> p_tok pay = TK_BASE ->
+  exists u pid p m1 m2 lp w, o = CRemoveLiq u pid p m1 m2 /\ getn (s_wlp (c_px cs)) (p_non p) = Some w /\
+    part_wlp w (p_amt p) = Ok lp /\ lp < snd (fst (v_pair (co_e co))) /\ pay = (TK_BASE, 0, snd (fst (v_pair (co_e co))) - lp).
+Proof.
+  intros H Hin Hb. pose proof (cstep_proj _ _ _ _ H) as P.
+  destruct o; cbn [pop_of] in P;
+    try (match type of P with _ /\ _ => destruct P as [Hs _] end; destruct (base_only_surplus _ _ _ _ _ Hs Hin Hb) as (u' & pid' & p' & e' & lp & w & Eo & Hw & Hp & Hlt & Epay);
+         inversion Eo; subst; eauto 12; fail).
+  - cbn [cstep] in H. unfold c_pair_env in H. chk H. mon H r Hr. destruct r as [[pair' po] ef]. inversion H; subst. contradiction.
+  - cbn [cstep] in H. unfold c_farm_env in H. mon H lf Hlf. chk H. mon H r Hr. destruct r as [[lf' fo] rc]. mon H pair' Hp. mon H en' He.
+    cbv zeta in H. destruct (set_farm cs farm lf') as [f0' f1']. inversion H; subst. contradiction.
+  - cbn [cstep] in H. unfold c_energy_env in H. chk H. mon H r Hr. inversion H; subst. contradiction.
+  - cbn [cstep] in H. unfold c_time in H. chk H. mon H r Hr. inversion H; subst. contradiction.
+Qed.
+
+Theorem closed_locked_merge cs u ps cs' co : creach cs -> cstep cs (CMergeWlp u ps) = Ok (cs', co) ->
+  let s := c_px cs in let e := co_e co in let x := co_x co in
+  let n := next_nonce (s_wlp s) in
+  x_outs x = [(TK_WLP, n, sum_amt ps)] /\ x_mint x = 0 /\ x_burn x = 0 /\ x_lburn x = (0, 0) /\ x_energy x = None /\
+  0 < sum_amt ps /\ 0 <= snd (v_fact e) /\
+  getn (s_wlp (c_px cs')) n = Some (mkWlp (sum_amt ps) (fst (v_fact e)) (snd (v_fact e)) (sum_amt ps) 0).
+Proof.
+  intros R H. destruct (cstep_proj _ _ _ _ H) as [Hs Hl]. exact (merge_wlp_char _ _ _ _ _ _ Hs (creach_backed _ R) Hl).
+Qed.
+
+Theorem closed_mint_burn_add cs u pid p1 p2 m1 m2 cs' co : creach cs -> cstep cs (CAddLiq u pid p1 p2 [] m1 m2) = Ok (cs', co) ->
+  let s := c_px cs in let e := co_e co in let x := co_x co in
+  exists pl po used_l used_o,
+    ((p_tok p1 = TK_LOCKED /\ p_tok p2 <> TK_LOCKED /\ pl = p1 /\ po = p2 /\ used_l = snd (fst (v_pair e)) /\ used_o = snd (v_pair e)) \/
+     (p_tok p2 = TK_LOCKED /\ p_tok p1 <> TK_LOCKED /\ pl = p2 /\ po = p1 /\ used_l = snd (v_pair e) /\ used_o = snd (fst (v_pair e)))) /\
+    let lp := fst (fst (v_pair e)) in
+    let n := next_nonce (s_wlp s) in
+    0 <= used_l <= p_amt pl /\
+    x_mint x = p_amt pl /\ x_burn x = p_amt pl - used_l /\ x_lburn x = (0, 0) /\ x_energy x = None /\
+    x_outs x = [(TK_WLP, n, lp); (TK_LOCKED, p_non pl, p_amt pl - used_l); (TK_OTHER, 0, p_amt po - used_o)] /\
+    getn (s_wlp (c_px cs')) n = Some (mkWlp lp (p_non pl) used_l lp 0).
+Proof.
+  intros R H. destruct (cstep_proj _ _ _ _ H) as [Hs Hl]. exact (add_liq_char _ _ _ _ _ _ _ _ Hs (creach_backed _ R) Hl).
+Qed.
+
+Theorem closed_mint_burn_enter cs u farm p b cs' co : creach cs -> cstep cs (CEnterFarm u farm p [] b) = Ok (cs', co) ->
+  let s := c_px cs in let e := co_e co in let x := co_x co in
+  let a := p_amt p in let m := next_nonce (s_wfm s) in
+  0 < a /\ snd (v_farm e) = a /\ x_burn x = 0 /\ x_lburn x = (0, 0) /\ x_energy x = None /\
+  x_outs x = [(TK_WFM, m, a); (TK_LOCKED, fst (v_rew e), snd (v_rew e))] /\
+  ((p_tok p = TK_LOCKED /\ farm = 0 /\ x_mint x = a /\
+    getn (s_wfm (c_px cs')) m = Some (mkWfm farm (fst (v_farm e)) a 0 (p_non p) a a)) \/
+   (p_tok p = TK_WLP /\ farm = 1 /\ x_mint x = 0 /\
+    getn (s_wfm (c_px cs')) m = Some (mkWfm farm (fst (v_farm e)) a 1 (p_non p) a a))).
+Proof.
+  intros R H. destruct (cstep_proj _ _ _ _ H) as [Hs Hl]. exact (enter_farm_char _ _ _ _ _ _ _ Hs (creach_backed _ R) Hl).
+Qed.
+
+(** reachable closed states stay reachable under any further closed operation, so the round trips above apply to
+    reachable states through [creach_backed] *)
+Theorem closed_pool_round_trip_reach cs u pid p1 p2 m1 m2 cs1 co1 cs2 m1' m2' cs3 co3 :
+  creach cs -> c_add_liq cs u pid p1 p2 [] m1 m2 = Ok (cs1, co1) -> c_px cs2 = c_px cs1 ->
+  c_remove_liq cs2 u pid (TK_WLP, next_nonce (s_wlp (c_px cs)), fst (fst (v_pair (co_e co1)))) m1' m2' = Ok (cs3, co3) ->
+  co_dl co1 = 0 /\ co_db co1 = L16.add_used_locked p1 (co_e co1) /\
+  (co_db co1 + co_dl co1) + (co_db co3 + co_dl co3) = 0.
+Proof. intros R. apply closed_pool_round_trip. apply creach_backed. exact R. Qed.
+
+Theorem closed_farm_round_trip_reach cs u p b1 cs1 co1 cs2 b2 cs3 co3 :
+  creach cs -> p_tok p = TK_LOCKED -> c_enter_farm cs u 0 p [] b1 = Ok (cs1, co1) -> c_px cs2 = c_px cs1 ->
+  c_exit_farm cs2 u 0 (TK_WFM, next_nonce (s_wfm (c_px cs)), p_amt p) b2 = Ok (cs3, co3) ->
+  let pen := snd (x_lburn (co_x co3)) in
+  co_db co1 = p_amt p /\ co_db co3 = - p_amt p /\ co_db co1 + co_db co3 = 0 /\
+  x_burn (co_x co3) = p_amt p - pen /\ co_db co3 = - (x_burn (co_x co3) + pen) /\
+  (exists rew, x_outs (co_x co3) = [(TK_LOCKED, p_non p, p_amt p - pen); rew]).
+Proof. intros R. apply closed_farm_round_trip. apply creach_backed. exact R. Qed.
+
+(** ================================================================== example history (Props/C16_closed.v, Props/C08_proxy.v:
+    non-vacuity).  Executed on the real composed system (tools/sys_proxy_closed.py, scripted): user 1 adds liquidity with
+    10^8 locked tokens (unlock epoch 360), hands the wrapped LP token to user 2; the trader moves the price; two epochs
+    later user 2 removes the liquidity - the pool returns 68 814 513 base asset, so user 2 gets 68 814 513 LOCKED
+    tokens and the proxy burns 31 185 487 with the deduction taken from USER 2's entry; user 1 enters the base-asset farm
+    with 10^6 locked tokens and exits one epoch later with the 1 % penalty and a locked reward. *)
+Definition ex_init : cst :=
+  init_c 300 50 true 1000000000000000000 [(360, 4000); (1800, 6000); (3600, 8000)] 360 10 1.
+
+Definition ex_setup : list cop :=
+  [CFarm 0 (FL.LF (F.FSetRate 10 100 5000)); CFarm 0 (FL.LF (F.FSetState 100 1)); CFarm 0 (FL.LF (F.FStart 10 100));
+   CFarm 0 (FL.LF (F.FSetFactors 100)); CFarm 0 (FL.LF (F.FSetPct 10 100 2500));
+   CFarm 1 (FL.LF (F.FSetRate 10 100 5000)); CFarm 1 (FL.LF (F.FSetState 100 1)); CFarm 1 (FL.LF (F.FStart 10 100));
+   CFarm 1 (FL.LF (F.FSetFactors 100)); CFarm 1 (FL.LF (F.FSetPct 10 100 2500));
+   CEnergy (EN.Lock 1 1000000000000 360 1); CEnergy (EN.Lock 2 500000000000 1800 2); CEnergy (EN.Lock 3 10000000000 360 3);
+   CPair (PR.AddInitial 100 1000000000 2000000000); CPair (PR.SetState 100 1)].
+
+Definition ex_hist : list cop :=
+  [CAddLiq 1 0 (2, 360, 100000000) (1, 0, 200000000) [] 1 1;
+   CXferWlp 1 2 1 100000000;
+   CPair (PR.SwapIn 7 2 1000000000 1 1);
+   CTime 5 2;
+   CRemoveLiq 2 0 (3, 1, 100000000) 1 1;
+   CEnterFarm 1 0 (2, 360, 1000000) [] 0;
+   CTime 5 1;
+   CExitFarm 1 0 (4, 1, 1000000) 0].
+
+Definition ex_ops : list cop := ex_setup ++ ex_hist.
+
+Fixpoint all_ok (cs : cst) (ops : list cop) : bool :=
+  match ops with
+  | [] => true
+  | o :: t => match cstep cs o with Ok (cs', _) => all_ok cs' t | Err _ => false end
+  end.
+
+Definition cwf_b (o : cop) : bool :=
+  match caller_of o with
+  | Some u => (0 <? u) && (u <? 1000) && negb (reserved u)
+  | None => match o with CFarm _ (FL.LF fo) => forallb (fun c => (0 <=? c) && (c <? 1000)) (farm_accts fo) | _ => true end
+  end.
+
+Lemma cwf_b_ok o : cwf_b o = true -> cwf o.
+Proof.
+  unfold cwf, cuser. destruct o; cbn [cwf_b caller_of]; intros H;
+    try (split; [|exact I]; apply andb_prop in H; destruct H as [H H3]; apply andb_prop in H; destruct H as [H1 H2];
+         apply Z.ltb_lt in H1, H2; apply negb_true_iff in H3; unfold reserved in H3;
+         apply orb_false_iff in H3; destruct H3 as [H3 H5]; apply orb_false_iff in H3; destruct H3 as [H3 H4];
+         apply Z.eqb_neq in H3, H4, H5; unfold uid; lia);
+    try (split; exact I).
+  split; [exact I|]. destruct o; [|exact I]. apply Forall_forall. intros c Hc. rewrite forallb_forall in H.
+  specialize (H c Hc). apply andb_prop in H. destruct H as [H1 H2]. apply Z.leb_le in H1. apply Z.ltb_lt in H2. unfold FI.valid_id. lia.
+Qed.
+
+(** with the backing invariant: the wrapped tokens are backed by what the CALLEE MODELS hold for the proxy *)
+Theorem chist2_backed_by_callees cs : chist2 cs ->
+  asum (s_hlp (c_px cs)) <= PR.lp_of (c_pair cs) PX /\
+  forall m w, getn (s_wfm (c_px cs)) m = Some w ->
+    (wf_farm w = 0 \/ wf_farm w = 1) /\ wf_sup w <= F.held (FL.l_f (lf_of cs (wf_farm w))) (wf_f w) PX.
+Proof.
+  intros H. destruct (chist2_links _ H) as (L1 & L2 & K).
+  pose proof (creach_backed _ (chist_creach _ (chist2_chist _ H))) as Hb.
+  split; [unfold LinkLP in L1; rewrite <- L1; exact (bk_lp _ Hb)|].
+  intros m w Hw. pose proof (Forall_getn _ _ _ _ K Hw) as Kw.
+  assert (Hf : wf_farm w = 0 \/ wf_farm w = 1) by (unfold kf_ok in Kw; tauto).
+  split; [exact Hf|]. destruct (backed_wfm_position _ _ _ Hb Hw) as (_ & Hs & _).
+  rewrite (L2 (wf_farm w) (wf_f w) Hf) in Hs. exact Hs.
+Qed.
+
+(** ---- C08 for proxy positions, as stated in Props/C08_proxy.v *)
+Theorem chist_view cs u : chist cs -> 0 < u ->
+  let s := c_en cs in let d := g_car (c_g cs) in
+  EN.e_amt (EN.view_entry s u) = ENP.spec_energy (EN.s_bal s ++ d) u (EN.s_now s) /\
+  EN.e_tot (EN.view_entry s u) = ENP.spec_total (EN.s_bal s ++ d) u /\
+  EN.e_upd (EN.view_entry s u) = EN.s_now s /\
+  EN.view_amount s u = Z.max 0 (ENP.spec_energy (EN.s_bal s ++ d) u (EN.s_now s)).
+Proof. intros H Hu. exact (cinv_view (cus_of cs) u (chist_cinv _ H) Hu). Qed.
+
+Theorem spec_split l d u now :
+  ENP.spec_energy (l ++ d) u now = ENP.spec_energy l u now + ENP.spec_energy d u now /\
+  ENP.spec_total (l ++ d) u = ENP.spec_total l u + ENP.spec_total d u.
+Proof. split; [apply spec_energy_app | apply spec_total_app]. Qed.
+
+Theorem chist_custody cs : chist cs ->
+  (forall e, ENP.lsum_e (g_car (c_g cs)) e = EN.lget (EN.s_bal (c_en cs)) H_PX e) /\
+  Forall (fun x : Z * Z * Z => 0 < fst (fst x)) (g_car (c_g cs)) /\
+  EN.view_entry (c_en cs) H_PX = EN.mkEn 0 (EN.s_now (c_en cs)) 0 /\ EN.view_amount (c_en cs) H_PX = 0.
+Proof.
+  intros H. pose proof (chist_cinv _ H) as I. destruct (cinv_proxy_no_energy _ I) as [A B].
+  destruct I as (_ & S & P). split; [exact S|]. split; [exact P|]. split; assumption.
+Qed.
+
+Theorem cstep_only_caller_view cs o cs' co u v : cstep cs o = Ok (cs', co) -> Backed (c_px cs) ->
+  caller_of o = Some u -> uid u -> v <> u ->
+  EN.view_entry (c_en cs') v = EN.view_entry (c_en cs) v.
+Proof. intros H Hb Hc Hu Hv. eapply ent_frame_view; [eapply cstep_only_caller; eauto | exact Hv]. Qed.
+
+(** ================================================================== Part A, second half: projection onto CALLEE steps *)
+(** the callee-model steps a successful closed transaction contains (the nested calls, on the states the glue handed them) *)
+Theorem cstep_callees cs o cs' co : cstep cs o = Ok (cs', co) ->
+  match o with
+  | CAddLiq u _ p1 p2 extra m1 m2 =>
+      (exists po ef, PR.step (c_pair cs) (PR.Add PX (p_amt p1) (p_amt p2) m1 m2) = Ok (c_pair cs', po, ef)) /\
+      (extra <> [] -> exists s1 fps s2 fo, EN.step s1 (EN.MergeVia u fps) = Ok (s2, fo))
+  | CRemoveLiq _ _ p m1 m2 => exists po ef, PR.step (c_pair cs) (PR.Remove PX (p_amt p) m1 m2) = Ok (c_pair cs', po, ef)
+  | CEnterFarm u farm p extra b =>
+      (exists lf lf2 fo rc, farm_of cs farm = Ok lf /\
+         FL.lstep lf (FL.LF (F.FEnter (c_blk cs) (now_of cs) u (p_amt p) [] b)) = Ok (lf2, fo, rc)) /\
+      (extra <> [] -> (exists s1 fps s2 fo, EN.step s1 (EN.MergeVia u fps) = Ok (s2, fo)) /\
+                      (exists lf3 toks lf4 go rcm, FL.lstep lf3 (FL.LF (F.FMerge (c_blk cs) (now_of cs) u toks 0)) = Ok (lf4, go, rcm)))
+  | CExitFarm u _ p b => exists w lf1 lf2 fo rc, getn (s_wfm (c_px cs)) (p_non p) = Some w /\
+      FL.lstep lf1 (FL.LF (F.FExit (c_blk cs) (now_of cs) u (wf_f w, p_amt p) b)) = Ok (lf2, fo, rc)
+  | CClaim u _ p b => exists w lf1 lf2 fo rc, getn (s_wfm (c_px cs)) (p_non p) = Some w /\
+      FL.lstep lf1 (FL.LF (F.FClaim (c_blk cs) (now_of cs) u (wf_f w, p_amt p) [] b)) = Ok (lf2, fo, rc)
+  | CMergeWlp u _ => exists s1 fps s2 fo, EN.step s1 (EN.MergeVia u fps) = Ok (s2, fo)
+  | CMergeWfm u _ _ bm =>
+      (exists s1 fps s2 fo, EN.step s1 (EN.MergeVia u fps) = Ok (s2, fo)) /\
+      (exists lf1 toks lf2 go rcm, FL.lstep lf1 (FL.LF (F.FMerge (c_blk cs) (now_of cs) u toks bm)) = Ok (lf2, go, rcm))
+  | CIncLp u _ le | CIncFm u _ le => exists s1 k amt s2 fo, EN.step s1 (EN.ExtendVia u k amt le) = Ok (s2, fo)
+  | CPair o' => exists po ef, PR.step (c_pair cs) o' = Ok (c_pair cs', po, ef)
+  | CFarm farm o' => exists lf lf' fo rc, farm_of cs farm = Ok lf /\ FL.lstep lf o' = Ok (lf', fo, rc) /\ lf' = lf_of cs' farm
+  | CEnergy o' => exists out, EN.step (c_en cs) o' = Ok (c_en cs', out)
+  | CTime _ dep => exists out, EN.step (c_en cs) (EN.Advance dep) = Ok (c_en cs', out)
+  | _ => True
+  end.
+Proof.
+  destruct o; cbn [cstep]; intros H; try exact I.
+  - unfold c_add_liq in H. chk H. mon H c0 H0. mon H rp Hp. destruct rp as [[pair' po] ef].
+    mon H e1 He1. cbv zeta in H. mon H re Hre. destruct re as [c1 e]. mon H rx Hx. destruct rx as [px' x].
+    mon H c2 H2. inversion H; subst cs' co; clear H. cbn [c_pair]. split; [eauto|]. intros Hne.
+    destruct extra as [|q t]; [contradiction|]. mon Hre parts Hparts. mon Hre rm Hrm. destruct rm as [cm fo].
+    unfold px_merge in Hrm. mon Hrm ca Ha. mon Hrm r Hr. destruct r as [s2 o2]. eauto.
+  - unfold c_remove_liq in H. mon H rp Hp. destruct rp as [[pair' po] ef]. mon H e He.
+    mon H rx Hx. destruct rx as [px' x]. mon H c2 H2. inversion H; subst. cbn [c_pair]. eauto.
+  - unfold c_enter_farm in H. cbv zeta in H. mon H lf Hlf. mon H r0 Hr0. destruct r0 as [[s1 kind] minted].
+    mon H c0 H0. mon H rf Hrf. destruct rf as [[lf1 fo] rc]. mon H pair1 Hpair. mon H c1 H1.
+    mon H re Hre. destruct re as [[lf' c3] e]. mon H rx Hx. destruct rx as [px' x]. mon H c4 H4.
+    destruct (via_user_inv _ _ _ _ _ _ _ _ Hrf) as (lfa & lfb & Hq & Hstep & _). simpl in Hq. inversion Hq; subst lfa.
+    split; [eauto 8|]. intros Hne. destruct extra as [|q t]; [contradiction|].
+    mon Hre rt Hrt. destruct rt as [s2 its]. mon Hre fps Hfps. mon Hre toks Htoks. mon Hre rm Hrm. destruct rm as [cm mo].
+    mon Hre rg Hrg. destruct rg as [[lf2 go] rcm].
+    unfold px_merge in Hrm. mon Hrm ca Ha. mon Hrm r Hr. destruct r as [sm o2].
+    destruct (via_user_inv _ _ _ _ _ _ _ _ Hrg) as (lfc & lfd & _ & Hmstep & _). split; eauto 8.
+  - unfold c_exit_farm in H. cbv zeta in H. mon H lf Hlf.
+    destruct (getn (s_wfm (c_px cs)) (p_non p)) as [w|] eqn:Hw; [|discriminate].
+    mon H rf Hrf. destruct rf as [[lf1 fo] rc]. destruct (via_user_inv _ _ _ _ _ _ _ _ Hrf) as (lfa & lfb & _ & Hstep & _). eauto 8.
+  - unfold c_claim in H. cbv zeta in H. mon H lf Hlf.
+    destruct (getn (s_wfm (c_px cs)) (p_non p)) as [w|] eqn:Hw; [|discriminate].
+    mon H rf Hrf. destruct rf as [[lf1 fo] rc]. destruct (via_user_inv _ _ _ _ _ _ _ _ Hrf) as (lfa & lfb & _ & Hstep & _). eauto 8.
+  - unfold c_merge_wlp in H. cbv zeta in H. mon H parts Hparts. mon H rm Hrm. destruct rm as [cm mo].
+    unfold px_merge in Hrm. mon Hrm ca Ha. mon Hrm r Hr. destruct r as [s2 o2]. eauto.
+  - unfold c_merge_wfm in H. cbv zeta in H. mon H lf Hlf. mon H rt Hrt. destruct rt as [s1 its].
+    mon H fps Hfps. mon H toks Htoks. mon H rm Hrm. destruct rm as [cm mo]. mon H rg Hrg. destruct rg as [[lf1 go] rcm].
+    unfold px_merge in Hrm. mon Hrm ca Ha. mon Hrm r Hr. destruct r as [s2 o2].
+    destruct (via_user_inv _ _ _ _ _ _ _ _ Hrg) as (lfc & lfd & _ & Hmstep & _). split; eauto 8.
+  - unfold c_inc_lp in H. cbv zeta in H. mon H rt Hrt. destruct rt as [s1 [k lp]]. mon H rm Hrm. destruct rm as [cm mo].
+    unfold px_extend in Hrm. mon Hrm ca Ha. mon Hrm r Hr. destruct r as [s2 o2]. eauto 8.
+  - unfold c_inc_fm in H. cbv zeta in H. mon H rt Hrt. destruct rt as [s1 [w pp]]. mon H kl Hkl. destruct kl as [k lq].
+    mon H rm Hrm. destruct rm as [cm mo]. unfold px_extend in Hrm. mon Hrm ca Ha. mon Hrm r Hr. destruct r as [s2 o2]. eauto 8.
+  - unfold c_pair_env in H. chk H. mon H r Hr. destruct r as [[pair' po] ef]. inversion H; subst. cbn [c_pair]. eauto.
+  - unfold c_farm_env in H. mon H lf Hlf. chk H. mon H r Hr. destruct r as [[lf' fo] rc]. mon H pair' Hp. mon H en' He.
+    cbv zeta in H. destruct (set_farm cs farm lf') as [f0' f1'] eqn:Es. inversion H; subst. exists lf, lf', fo, rc.
+    split; [exact Hlf|]. split; [exact Hr|]. destruct (farm_of_ok _ _ _ Hlf) as [Hf _]. unfold lf_of, set_farm in *. cbn [c_f0 c_f1].
+    destruct (farm =? 0); inversion Es; reflexivity.
+  - unfold c_energy_env in H. chk H. mon H r Hr. destruct r as [s' out]. inversion H; subst. cbn [c_en fst]. eauto.
+  - unfold c_time in H. chk H. mon H r Hr. destruct r as [s' out]. inversion H; subst. cbn [c_en fst]. eauto.
+Qed.
+
+(** ================================================================== the callee models' own invariants inside the composition
+    C01's PairInv for the pair model and C05-C07's invariant of the locked farm (FarmLockedProofs.LOK = FarmOK + the
+    reward-ledger identities) hold in every closed history: every theorem of Props/C01..C07 about those models applies to
+    the callee states of the composition. *)
+Definition CalleeOK (cs : cst) : Prop := PI.PairInv (c_pair cs) /\ FLP.LOK (c_f0 cs) /\ FLP.LOK (c_f1 cs).
+
+Lemma px_valid : FI.valid_id PX. Proof. unfold FI.valid_id, PX. lia. Qed.
+
+Lemma lseq_lok toks : forall lf u lf1, FB.lseq lf (map (FB.xfer PX u) toks) = Ok lf1 -> FLP.LOK lf -> FI.valid_id u -> FLP.LOK lf1.
+Proof.
+  induction toks as [|t ts IH]; intros lf u lf1 H K Hu; cbn [map FB.lseq] in H.
+  - inversion H; subst. exact K.
+  - mon H r Hr. destruct r as [[lf0 o] rc]. cbn [fst] in H. eapply IH; [exact H | | exact Hu].
+    eapply FLP.lstep_lok; [exact K | | exact Hr]. cbn. split; [exact px_valid | exact Hu].
+Qed.
+
+Lemma via_user_lok lf u toks op back lf' o rc : via_user lf u toks op back = Ok (lf', o, rc) ->
+  FLP.LOK lf -> FI.valid_id u -> FI.valid_op op -> FLP.LOK lf'.
+Proof.
+  unfold via_user. intros H K Hu Hop. mon H lf1 H1. mon H r Hr. destruct r as [[lf2 o2] rc2].
+  pose proof (lseq_lok _ _ _ _ H1 K Hu) as K1.
+  assert (K2 : FLP.LOK lf2) by (eapply (FLP.lstep_lok lf1 (FL.LF op)); [exact K1 | exact Hop | exact Hr]).
+  destruct back.
+  - mon H r' Hr'. destruct r' as [[lf3 o3] rc3]. inversion H; subst. cbn [fst].
+    eapply FLP.lstep_lok; [exact K2 | | exact Hr']. cbn. split; [exact Hu | exact px_valid].
+  - inversion H; subst. exact K2.
+Qed.
+
+Lemma lp_exit_flow_inv p dst amt out p' : lp_exit_flow p dst amt out = Ok p' -> PI.PairInv p -> 0 <= out -> PI.PairInv p'.
+Proof.
+  unfold lp_exit_flow. intros H Hinv Ho. mon H p1 Hd. mon H pen Hp. apply sub_chk_ok in Hp. destruct Hp as [Hle ->].
+  inversion H; subst p'; clear H.
+  pose proof Hinv as [b1 b2 iS ind inn ipos izero iS0 ifee icut].
+  apply PI.lp_debit_spec in Hd; auto; try lia.
+  destruct Hd as (Hne & Hle' & SD & NDD & NND & GD & OD & Ep1).
+  pose proof (PI.lp_credit_spec p1 dst out ltac:(lia) NDD NND) as Hc. cbv zeta in Hc.
+  destruct Hc as (S2 & ND2 & NN2 & G2 & O2).
+  pose proof (PI.lp_credit_spec (PR.lp_credit p1 dst out) LPBURN (amt - out) ltac:(lia) ND2 NN2) as Hc3. cbv zeta in Hc3.
+  destruct Hc3 as (S3 & ND3 & NN3 & G3 & O3).
+  assert (F : PR.p_r1 p1 = PR.p_r1 p /\ PR.p_r2 p1 = PR.p_r2 p /\ PR.p_S p1 = PR.p_S p /\ PR.p_bal1 p1 = PR.p_bal1 p /\
+              PR.p_bal2 p1 = PR.p_bal2 p /\ PR.p_fee p1 = PR.p_fee p /\ PR.p_sfee p1 = PR.p_sfee p /\ PR.p_cut p1 = PR.p_cut p).
+  { rewrite Ep1. simpl. repeat split; reflexivity. }
+  destruct F as (F1 & F2 & F3 & F4 & F5 & F6 & F7 & F8).
+  set (q := PR.lp_credit (PR.lp_credit p1 dst out) LPBURN (amt - out)) in *.
+  assert (Q : PR.p_r1 q = PR.p_r1 p /\ PR.p_r2 q = PR.p_r2 p /\ PR.p_S q = PR.p_S p /\ PR.p_bal1 q = PR.p_bal1 p /\
+              PR.p_bal2 q = PR.p_bal2 p /\ PR.p_fee q = PR.p_fee p /\ PR.p_sfee q = PR.p_sfee p /\ PR.p_cut q = PR.p_cut p).
+  { unfold q. cbn. rewrite F1, F2, F3, F4, F5, F6, F7, F8. repeat split; reflexivity. }
+  destruct Q as (Q1 & Q2 & Q3 & Q4 & Q5 & Q6 & Q7 & Q8).
+  assert (LPBURN <> PR.SELF) by (unfold LPBURN, PR.SELF; lia).
+  constructor; rewrite ?Q1, ?Q2, ?Q3, ?Q4, ?Q5, ?Q6, ?Q7; auto.
+  - rewrite S3, S2, SD. lia.
+  - intros HS. destruct (ipos HS) as (P1 & P2 & PL). split; [auto|split; [auto|]].
+    rewrite O3 by congruence.
+    destruct (Z.eq_dec dst PR.SELF) as [->|Hd'].
+    + rewrite G2. rewrite OD by congruence. lia.
+    + rewrite O2 by congruence. rewrite OD by congruence. exact PL.
+  - unfold PI.cut_ok in *. rewrite Q8. exact icut.
+Qed.
+
+Lemma lp_enter_flow_inv p src amt p' : lp_enter_flow p src amt = Ok p' -> PI.PairInv p -> PI.PairInv p'.
+Proof.
+  unfold lp_enter_flow. intros H Hinv. mon H r Hr. destruct r as [[p1 o] e]. inversion H; subst. cbn [fst].
+  exact (proj1 (PI.step_spec p (PR.LpTransfer src LPFARM amt) _ _ _ Hr Hinv)).
+Qed.
+
+Lemma exit_out_nonneg ls blk ep c n a b ls' o rc : FL.lstep ls (FL.LF (F.FExit blk ep c (n, a) b)) = Ok (ls', o, rc) -> 0 <= nth 0 o 0.
+Proof.
+  intros H. destruct (L16.lfarm_exit_law _ _ _ _ _ _ _ _ _ _ (env0 0 (mkPEn 0 0 0) 0) 0 H) as (e' & He' & L & _).
+  rewrite (answer_exit_farm_field _ _ _ _ He') in L. unfold L16.law_farm_exit in L. apply Z.leb_le in L. exact L.
+Qed.
+
+Lemma set_farm_ok cs farm lf lf' f0' f1' : farm_of cs farm = Ok lf -> set_farm cs farm lf' = (f0', f1') ->
+  FLP.LOK (c_f0 cs) -> FLP.LOK (c_f1 cs) -> FLP.LOK lf' -> FLP.LOK f0' /\ FLP.LOK f1'.
+Proof.
+  intros Hf Hs K0 K1 K. unfold set_farm in Hs. destruct (farm =? 0); inversion Hs; subst; auto.
+Qed.
+
+Lemma farm_of_lok cs farm lf : farm_of cs farm = Ok lf -> FLP.LOK (c_f0 cs) -> FLP.LOK (c_f1 cs) -> FLP.LOK lf.
+Proof. intros H K0 K1. destruct (farm_of_ok _ _ _ H) as [_ ->]. unfold lf_of. destruct (farm =? 0); assumption. Qed.
+
+Theorem cstep_callee_ok cs o cs' co : cstep cs o = Ok (cs', co) -> cwf o -> CalleeOK cs -> CalleeOK cs'.
+Proof.
+  intros H (Hu & Hv) (P & K0 & K1). unfold cuser in Hu.
+  destruct o; cbn [cstep caller_of] in *; try (pose proof (uid_valid _ Hu) as Hvu).
+  - unfold c_add_liq in H. chk H. mon H c0 H0. mon H rp Hp. destruct rp as [[pair' po] ef].
+    mon H e1 He1. cbv zeta in H. mon H re Hre. destruct re as [c1 e]. mon H rx Hx. destruct rx as [px' x].
+    mon H c2 H2. inversion H; subst. split; [|split]; auto. exact (proj1 (PI.step_spec _ _ _ _ _ Hp P)).
+  - unfold c_remove_liq in H. mon H rp Hp. destruct rp as [[pair' po] ef]. mon H e He.
+    mon H rx Hx. destruct rx as [px' x]. mon H c2 H2. inversion H; subst. split; [|split]; auto.
+    exact (proj1 (PI.step_spec _ _ _ _ _ Hp P)).
+  - unfold c_enter_farm in H. cbv zeta in H. mon H lf Hlf. mon H r0 Hr0. destruct r0 as [[s1 kind] minted].
+    mon H c0 H0. mon H rf Hrf. destruct rf as [[lf1 fo] rc]. mon H pair1 Hpair. mon H c1 H1.
+    mon H re Hre. destruct re as [[lf' c3] e]. mon H rx Hx. destruct rx as [px' x]. mon H c4 H4.
+    destruct (set_farm cs farm lf') as [f0' f1'] eqn:Es. inversion H; subst cs' co; clear H.
+    pose proof (farm_of_lok _ _ _ Hlf K0 K1) as K.
+    pose proof (via_user_lok _ _ _ _ _ _ _ _ Hrf K Hvu Hvu) as Kl1.
+    assert (Kl' : FLP.LOK lf').
+    { destruct extra as [|q t].
+      - mon Hre e' He. inversion Hre; subst. exact Kl1.
+      - mon Hre rt Hrt. destruct rt as [s2 its]. mon Hre fps Hfps. mon Hre toks Htoks. mon Hre rm Hrm. destruct rm as [cm mo].
+        mon Hre rg Hrg. destruct rg as [[lf2 go] rcm]. mon Hre c2 H2. mon Hre e1 He1. mon Hre e2 He2. mon Hre e3 He3.
+        inversion Hre; subst. exact (via_user_lok _ _ _ _ _ _ _ _ Hrg Kl1 Hvu Hvu). }
+    destruct (set_farm_ok _ _ _ _ _ _ Hlf Es K0 K1 Kl') as [A B]. split; [|split]; auto. cbn [c_pair].
+    destruct (farm =? 1); [eapply lp_enter_flow_inv; eauto | inversion Hpair; subst; exact P].
+  - unfold c_exit_farm in H. cbv zeta in H. mon H lf Hlf.
+    destruct (getn (s_wfm (c_px cs)) (p_non p)) as [w|] eqn:Hw; [|discriminate].
+    mon H rf Hrf. destruct rf as [[lf1 fo] rc]. mon H pair1 Hpair. mon H c1 H1. mon H e He.
+    mon H rx Hx. destruct rx as [px' x]. mon H c2 H2. destruct (set_farm cs farm lf1) as [f0' f1'] eqn:Es.
+    inversion H; subst cs' co; clear H.
+    pose proof (farm_of_lok _ _ _ Hlf K0 K1) as K.
+    pose proof (via_user_lok _ _ _ _ _ _ _ _ Hrf K Hvu Hvu) as Kl1.
+    destruct (set_farm_ok _ _ _ _ _ _ Hlf Es K0 K1 Kl1) as [A B]. split; [|split]; auto. cbn [c_pair].
+    destruct (farm =? 1); [|inversion Hpair; subst; exact P].
+    destruct (via_user_inv _ _ _ _ _ _ _ _ Hrf) as (la & lb & _ & Hst & _).
+    eapply lp_exit_flow_inv; [exact Hpair | exact P | eapply exit_out_nonneg; eauto].
+  - unfold c_claim in H. cbv zeta in H. mon H lf Hlf.
+    destruct (getn (s_wfm (c_px cs)) (p_non p)) as [w|] eqn:Hw; [|discriminate].
+    mon H rf Hrf. destruct rf as [[lf1 fo] rc]. mon H c1 H1. mon H e He.
+    mon H rx Hx. destruct rx as [px' x]. mon H c2 H2. destruct (set_farm cs farm lf1) as [f0' f1'] eqn:Es.
+    inversion H; subst cs' co; clear H.
+    pose proof (farm_of_lok _ _ _ Hlf K0 K1) as K.
+    pose proof (via_user_lok _ _ _ _ _ _ _ _ Hrf K Hvu Hvu) as Kl1.
+    destruct (set_farm_ok _ _ _ _ _ _ Hlf Es K0 K1 Kl1) as [A B]. split; [|split]; auto.
+  - unfold c_merge_wlp in H. cbv zeta in H. mon H parts Hparts. mon H rm Hrm. destruct rm as [cm mo]. cbn [fst snd] in H.
+    mon H e He. mon H rx Hx. destruct rx as [px' x]. mon H c2 H2. inversion H; subst. split; [|split]; auto.
+  - unfold c_merge_wfm in H. cbv zeta in H. mon H lf Hlf. mon H rt Hrt. destruct rt as [s1 its].
+    mon H fps Hfps. mon H toks Htoks. mon H rm Hrm. destruct rm as [cm mo]. mon H rg Hrg. destruct rg as [[lf1 go] rcm].
+    cbn [fst snd] in H. mon H c1 H1. mon H e1 He1. mon H e He. mon H rx Hx. destruct rx as [px' x]. mon H c2 H2.
+    destruct (set_farm cs farm lf1) as [f0' f1'] eqn:Es. inversion H; subst cs' co; clear H.
+    pose proof (farm_of_lok _ _ _ Hlf K0 K1) as K.
+    pose proof (via_user_lok _ _ _ _ _ _ _ _ Hrg K Hvu Hvu) as Kl1.
+    destruct (set_farm_ok _ _ _ _ _ _ Hlf Es K0 K1 Kl1) as [A B]. split; [|split]; auto.
+  - unfold c_inc_lp in H. cbv zeta in H. mon H rt Hrt. destruct rt as [s1 [k lp]]. mon H rm Hrm. destruct rm as [cm mo]. cbn [fst snd] in H.
+    mon H e He. mon H rx Hx. destruct rx as [px' x]. mon H c2 H2. inversion H; subst. split; [|split]; auto.
+  - unfold c_inc_fm in H. cbv zeta in H. mon H rt Hrt. destruct rt as [s1 [w pp]]. mon H kl Hkl. destruct kl as [k lq].
+    mon H rm Hrm. destruct rm as [cm mo]. cbn [fst snd] in H.
+    mon H e He. mon H rx Hx. destruct rx as [px' x]. mon H c2 H2. inversion H; subst. split; [|split]; auto.
+  - unfold c_plain in H. mon H rx Hx. destruct rx. inversion H; subst. split; [|split]; auto.
+  - unfold c_plain in H. mon H rx Hx. destruct rx. inversion H; subst. split; [|split]; auto.
+  - unfold c_plain in H. mon H rx Hx. destruct rx. inversion H; subst. split; [|split]; auto.
+  - unfold c_plain in H. mon H rx Hx. destruct rx. inversion H; subst. split; [|split]; auto.
+  - unfold c_pair_env in H. chk H. mon H r Hr. destruct r as [[pair' po] ef]. inversion H; subst. split; [|split]; auto.
+    exact (proj1 (PI.step_spec _ _ _ _ _ Hr P)).
+  - unfold c_farm_env in H. mon H lf Hlf. chk H. mon H r Hr. destruct r as [[lf' fo] rc]. mon H pair' Hp. mon H en' He.
+    cbv zeta in H. destruct (set_farm cs farm lf') as [f0' f1'] eqn:Es. inversion H; subst cs' co; clear H.
+    pose proof (farm_of_lok _ _ _ Hlf K0 K1) as K.
+    assert (Kl' : FLP.LOK lf').
+    { eapply FLP.lstep_lok; [exact K | | exact Hr]. destruct o as [fo0|c e]; [|exact I]. cbn.
+      destruct fo0; cbn [farm_accts] in Hv; cbn; try exact I;
+        repeat match goal with H : Forall _ (_ :: _) |- _ => inversion H; subst; clear H end; auto. }
+    destruct (set_farm_ok _ _ _ _ _ _ Hlf Es K0 K1 Kl') as [A B]. split; [|split]; auto. cbn [c_pair].
+    destruct o as [fo0|c e]; [|inversion Hp; subst; exact P].
+    destruct fo0; try (inversion Hp; subst; exact P).
+    + destruct (farm =? 1); [eapply lp_enter_flow_inv; eauto | inversion Hp; subst; exact P].
+    + destruct (farm =? 1); [|inversion Hp; subst; exact P].
+      destruct p as [n a]. eapply lp_exit_flow_inv; [exact Hp | exact P | eapply exit_out_nonneg; eauto].
+  - unfold c_energy_env in H. chk H. mon H r Hr. inversion H; subst. split; [|split]; auto.
+  - unfold c_time in H. chk H. mon H r Hr. inversion H; subst. split; [|split]; auto.
+Qed.
+
+Theorem crun_callee_ok ops : forall cs, Forall cwf ops -> CalleeOK cs -> CalleeOK (crun cs ops).
+Proof.
+  induction ops as [|o t IH]; intros cs Hw K; [exact K|]. inversion Hw as [|? ? Ho Ht]; subst.
+  change (crun cs (o :: t)) with (crun (cstep_total cs o) t). apply IH; [exact Ht|].
+  unfold cstep_total. destruct (cstep cs o) as [[cs' co]|] eqn:E; [|exact K]. eapply cstep_callee_ok; eauto.
+Qed.
+
+Theorem init_c_callee_ok fee sfee bf dsc opts lock blk epoch : 0 <= sfee <= fee -> fee <= PAIR_MAX_FEE_PERCENTAGE -> 0 < dsc ->
+  CalleeOK (init_c fee sfee bf dsc opts lock blk epoch).
+Proof.
+  intros H1 H2 H3. split; [apply PI.init_inv; assumption|]. split; apply FLP.init_locked_ok; assumption.
+Qed.
+
+(** everything at once, from the deployed world *)
+Theorem closed_world_invariants fee sfee bf dsc opts lock blk epoch ops :
+  0 <= sfee <= fee -> fee <= PAIR_MAX_FEE_PERCENTAGE -> 0 < dsc -> EN.valid_opts opts = true -> 0 <= epoch -> Forall cwf ops ->
+  let cs := crun (init_c fee sfee bf dsc opts lock blk epoch) ops in
+  Backed (c_px cs) /\ Links cs /\ Flows (c_g cs) /\ CInv (cus_of cs) /\ CalleeOK cs.
+Proof.
+  intros H1 H2 H3 H4 H5 Hw cs.
+  assert (C2 : chist2 cs).
+  { exists (init_c fee sfee bf dsc opts lock blk epoch), ops. split; [apply init_c_cinit2; assumption|]. split; [exact Hw | reflexivity]. }
+  split; [apply creach_backed, chist_creach, chist2_chist; exact C2|].
+  split; [apply chist2_links; exact C2|]. split; [apply chist2_flows; exact C2|].
+  split; [apply chist_cinv, chist2_chist; exact C2|].
+  apply crun_callee_ok; [exact Hw | apply init_c_callee_ok; assumption].
+Qed.
